@@ -6,6 +6,7 @@ from .. import au, sym, flow
 from ..sym import Poly
 from ..core import AnalysisError
 from ..rules import c0708 as H
+from ..rules import he_norm, he_seq
 
 ATTR_MODS = ["attributes.attr_cells", "attributes.attr_corners", "attributes.attr_edges",
              "attributes.attr_faces", "attributes.attr_vertices"]
@@ -44,32 +45,52 @@ RULES = {
     "C07-P1": "a function returning a position returns an affine combination of its input positions (weights summing to one; when rebuilt from "
               "coordinates in an orthonormal frame, along all three axes of the frame), never a pure vector",
     "C07-Z1": "an accumulator that is read-modify-written (+=, x = x + ..) is built in the function or reset (clear()) before the accumulation",
+    "C07-I1": "an attribute fetched from a mesh container (get_attribute: dense or sparse storage unknown) is read element by element through the "
+              "ids of its container, never iterated / summed / measured as a whole (iterating a sparse attribute yields its keys, len() its number of non-default entries)",
+    "C07-T1": "quantities that must not move under a translation of the mesh are built from displacement vectors: cross / norm / normalized "
+              "receive differences of positions, never positions; distance / area / angle primitives receive positions only",
+    "C07-B1": "angle_defects: interior vertices start from 2*pi, border vertices from pi (0 when zero_border) and the corner angles are subtracted "
+              "at every vertex except the border vertices when zero_border is set",
+    "C07-V1": "vertex degree counts every edge once at both of its ends; total_area sums the areas of all the faces",
+    "C07-O1": "face normals are oriented by the order of the vertices of the face: normalised cross(e1, e2) with (e1, e2) a positively oriented "
+              "pair of edge vectors of the face",
     "C07-X1": "closed-form primitives of geometry.py are the textbook polynomials (cross, det_2x2, det_3x3, quad_area, aspect_ratio, "
               "triangle_area) and angle primitives take both vectors from the central point",
 }
 
 
 def run(ctx):
-    r1_return_discipline(ctx)
-    d1_dead_marker(ctx)
-    s1_constructors(ctx)
-    k1_index_kinds(ctx)
-    g1_triangular_gate(ctx)
-    c1_corner_centre(ctx)
-    w1_interpolation(ctx)
-    m1_mean_divisor(ctx)
-    m2_barycentres(ctx)
-    a1_area_volume(ctx)
-    x1_primitives(ctx)
-    e1_edge_sides(ctx)
-    e2_absolute_thresholds(ctx)
-    z1_reset_before_accumulate(ctx)
-    p1_points(ctx)
+    steps = [("C07-R1", r1_return_discipline), ("C07-D1", d1_dead_marker), ("C07-S1", s1_constructors), ("C07-K1", k1_index_kinds),
+             ("C07-G1", g1_triangular_gate), ("C07-C1", c1_corner_centre), ("C07-W1", w1_interpolation), ("C07-M1", m1_mean_divisor),
+             ("C07-M2", m2_barycentres), ("C07-A1", a1_area_volume), ("C07-X1", x1_primitives), ("C07-E1", e1_edge_sides),
+             ("C07-E2", e2_absolute_thresholds), ("C07-Z1", z1_reset_before_accumulate), ("C07-P1", p1_points),
+             ("C07-I1", i1_attribute_iteration), ("C07-T1", t1_translation), ("C07-B1", b1_angle_defect_border), ("C07-V1", v1_counts), ("C07-O1", o1_normal_orientation)]
+    run_steps(ctx, steps, "attributes.attr_faces")
+
+
+def run_steps(ctx, steps, home):
+    """every rule runs on its own: a recogniser that trips over an unforeseen shape leaves its obligation undecided (exit 2 unless
+    another rule reports a violation) instead of aborting the whole check"""
+    for rule, step in steps:
+        try:
+            step(ctx)
+        except AnalysisError:
+            raise
+        except Exception as e:          # noqa
+            ctx.undecided(rule, ctx.site(home, "<module>"), f"{rule}: the recogniser failed on an unforeseen shape ({type(e).__name__})",
+                          "internal limitation of the checker, not a property of the code")
 
 
 def top_funcs(ctx, modname):
     m = ctx.repo.module(modname)
     return [(q, fn) for q, fn in m.funcs.items() if "." not in q]
+
+
+def floor(ctx, rule, n, at_least, modname, what):
+    """a rule that lost all (or most of) its sites cannot vouch for the property: undecided, not a vacuous pass"""
+    if n < at_least:
+        ctx.undecided(rule, ctx.site(modname, "<module>"), f"{rule}: only {n} {what} recognised (at least {at_least} expected)",
+                      "the code no longer has the shapes this rule reads")
 
 
 # ----------------------------------------------------------------------- C07-R1
@@ -83,6 +104,9 @@ def r1_return_discipline(ctx):
                 continue
             n += 1
             site = ctx.site(modname, fn)
+            if hasattr(ast, "Match") and any(isinstance(x, ast.Match) for x in au.walk(fn)):
+                ctx.undecided("C07-R1", site, f"{q}: control flow through a `match` statement is not followed by the rule", "")
+                continue
             f = flow.Flow(lambda s, st: s)
             f.run(fn.body, frozenset())
             falls = [e for e in f.exits if e[0] == "fall"]
@@ -94,126 +118,169 @@ def r1_return_discipline(ctx):
                          f"every call returns None instead of the computed quantity ({len(rets)} value-returning exit(s))")
             else:
                 ctx.ok("C07-R1", site, f"{q}: {len(rets)} exit(s), all return a value")
-    ctx.require_count("C07-R1 annotated functions", n, 15)
+    floor(ctx, "C07-R1", n, 1, "attributes.attr_faces", "annotated function(s)")
 
 
 # ----------------------------------------------------------------------- C07-D1
+def _const_store(st):
+    return isinstance(st, ast.Assign) and len(st.targets) == 1 and isinstance(st.targets[0], ast.Subscript) \
+        and isinstance(au.const(st.value), (int, float)) and not isinstance(au.const(st.value), bool)
+
+
 def d1_dead_marker(ctx):
-    """if c: A[k] = m      (body falls through)
-       A[k] = e            (does not read A[k])     -> the marker never survives"""
+    """a *conditional* store of a constant marker `A[k] = m` is dead when, on every path that executes it, a later plain store to the
+    same `A[k]` (not reading it) follows: decided on the structured paths of the enclosing loop body, whatever the layout"""
+    from ..rules.c1120_util import paths
     n = 0
+    per_fn = {}
     for modname in ATTR_MODS:
         for q, fn in top_funcs(ctx, modname):
-            for st in au.stmts(fn.body):
-                if not isinstance(st, ast.If) or st.orelse:
+            V = H.fview(ctx, modname, fn)
+            bodies = [s.body for s in au.stmts(V.body) if isinstance(s, (ast.For, ast.While))] + [V.body]
+            seen = set()
+            for body in bodies:
+                try:
+                    ps = paths(body)
+                except Exception:
                     continue
-                stores = [s for s in st.body if isinstance(s, ast.Assign) and len(s.targets) == 1
-                          and isinstance(s.targets[0], ast.Subscript)]
-                rest = [s for s in st.body if not any(s is x for x in stores)]
-                if not stores or not all(isinstance(s, (ast.Continue, ast.Break, ast.Return, ast.Raise)) for s in rest):
-                    continue
-                blk, _ = au.enclosing_block(st)
-                if not blk:
-                    continue
-                n += 1
-                i = [id(x) for x in blk].index(id(st))
-                nxt = blk[i + 1] if i + 1 < len(blk) else None
-                dead = None
-                if not rest and isinstance(nxt, ast.Assign) and len(nxt.targets) == 1:
-                    for s in stores:
-                        if au.same(s.targets[0], nxt.targets[0]) and \
-                                not any(au.same(x, nxt.targets[0]) for x in au.walk(nxt.value)
-                                        if isinstance(x, ast.Subscript)):
-                            dead = s
-                site = ctx.site(modname, fn, st)
-                ctx.check(dead is None, "C07-D1", site,
-                          f"marker store `{au.src(dead) if dead else ''}` under `{au.src(st.test)}` is overwritten by the next statement",
-                          f"the documented marker value never survives: `{au.src(nxt) if nxt else ''}` runs for every element",
-                          note=f"{q}: conditional store keeps its value")
-    if n == 0:
+                markers = {}
+                for p in ps:
+                    sts = [s for s in p.stmts if isinstance(s, ast.Assign)]
+                    for i, s in enumerate(sts):
+                        if not _const_store(s) or id(s) in seen:
+                            continue
+                        owner = next((a for a in au.ancestors(s) if isinstance(a, (ast.For, ast.While, ast.FunctionDef))), None)
+                        if not au.guards(s, stop=owner):
+                            continue        # unconditional initialisation: not a marker
+                        key = H.load_key(s.targets[0])
+                        dead = None
+                        for later in sts[i + 1:]:
+                            if len(later.targets) == 1 and H.load_key(later.targets[0]) == key:
+                                reads = any(au.norm(x) == key for x in au.walk(later.value))
+                                dead = None if reads else later
+                                break
+                        markers.setdefault(id(s), (s, []))[1].append(dead)
+                for sid, (s, outcomes) in markers.items():
+                    seen.add(sid)
+                    n += 1
+                    per_fn[q] = per_fn.get(q, 0) + 1
+                    site = ctx.site(modname, fn, s)
+                    if outcomes and all(o is not None for o in outcomes):
+                        nxt = outcomes[0]
+                        cond = au.guards(s)[0]
+                        ctx.fail("C07-D1", site, f"{q}: marker store `{au.src(s.targets[0])} = {au.src(s.value)}` under `{au.canon_test(*cond)}` is "
+                                 f"overwritten by a later store on every path", f"the documented marker value never survives: `{au.src(nxt)}` runs "
+                                 f"after it for every element")
+                    else:
+                        ctx.ok("C07-D1", site, f"{q}: conditional marker store keeps its value")
+    if not per_fn.get("triangle_aspect_ratio"):
         fn = ctx.repo.func("attributes.attr_faces", "triangle_aspect_ratio")
-        ctx.fail("C07-D1", ctx.site("attributes.attr_faces", fn), "triangle_aspect_ratio: conditional marker store for non-triangular faces not found",
-                 "the documented -1 marker for faces that are not triangles is no longer written under a test on the face size")
+        V = H.fview(ctx, "attributes.attr_faces", fn)
+        b = sym.Bindings(V)
+        for s in au.stmts(V.body):
+            if isinstance(s, ast.Assign) and len(s.targets) == 1 and isinstance(s.targets[0], ast.Subscript):
+                v = b.resolve(s.value, at=s)
+                if isinstance(v, ast.IfExp) and any(isinstance(au.const(x), (int, float)) for x in (v.body, v.orelse)):
+                    blk, _ = au.enclosing_block(s)
+                    later = [x for x in blk[[id(y) for y in blk].index(id(s)) + 1:] if isinstance(x, ast.Assign) and len(x.targets) == 1
+                             and H.load_key(x.targets[0]) == H.load_key(s.targets[0])]
+                    if not later:
+                        ctx.ok("C07-D1", ctx.site("attributes.attr_faces", fn, s), "triangle_aspect_ratio: marker chosen by a conditional expression")
+                        return
+        ctx.undecided("C07-D1", ctx.site("attributes.attr_faces", fn), "triangle_aspect_ratio: conditional marker store for non-triangular faces not recognised",
+                      "the documented -1 marker for faces that are not triangles could not be located")
 
 
 # ----------------------------------------------------------------------- C07-S1
-def _ctor_desc(call, how):
-    """(T, size, K, default) as normalised strings"""
-    args, kw = call.args, {k.arg: k.value for k in call.keywords}
+CTORS = ("create_attribute", "ArrayAttribute", "Attribute")
+
+
+def _ctor_desc(b, call, how):
+    """(T, size, K, default) of a constructor call, arguments resolved through the local bindings and normalised"""
+    kw = {k.arg: k.value for k in call.keywords}
+    args = call.args
 
     def pick(pos, name, default):
-        if len(args) > pos:
-            return au.norm(args[pos])
-        if name in kw:
-            return au.norm(kw[name])
-        return default
-    one = au.norm(ast.Constant(value=1))
-    none = au.norm(ast.Constant(value=None))
-    if how == "create":
-        ch = au.chain(call.func.value)
-        return (pick(1, "data_type", None), pick(2, "elem_size", one), ch[-1] if ch else None,
-                pick(4, "default_value", none))
-    if how == "array":
-        n = args[1] if len(args) > 1 else kw.get("n_elem")
+        e = args[pos] if len(args) > pos and not isinstance(args[pos], ast.Starred) else kw.get(name)
+        if e is None:
+            return default
+        return au.norm(b.resolve(e, at=call))
+    one, none = au.norm(ast.Constant(value=1)), au.norm(ast.Constant(value=None))
+    if how == "create_attribute":
+        ch = au.chain(call.func.value) if isinstance(call.func, ast.Attribute) else None
+        return (pick(1, "data_type", None), pick(2, "elem_size", one), ch[-1] if ch and ch[-1] in H.CONTAINERS else None, pick(4, "default_value", none))
+    if how == "ArrayAttribute":
+        nn = args[1] if len(args) > 1 else kw.get("n_elem")
         K = None
-        if isinstance(n, ast.Call) and au.call_tail(n) == "len" and n.args:
-            ch = au.chain(n.args[0])
-            K = ch[-1] if ch else None
+        nn = b.resolve(nn, at=call) if nn is not None else None
+        if isinstance(nn, ast.Call) and au.call_tail(nn) == "len" and nn.args:
+            ch = au.chain(nn.args[0])
+            K = ch[-1] if ch and ch[-1] in H.CONTAINERS else None
         return (pick(0, "elem_type", None), pick(2, "elem_size", one), K, pick(3, "default_value", none))
     return (pick(0, "elem_type", None), pick(1, "elem_size", one), None, pick(2, "default_value", none))
 
 
 def s1_constructors(ctx):
+    """the constructors that build the output attribute under persistent / not persistent (dense / sparse) agree on element type,
+    width, container and default value - wherever they are written (if / else, conditional expression, private helper)"""
     n = 0
     for modname in ATTR_MODS:
         for q, fn in top_funcs(ctx, modname):
             if "persistent" not in au.params(fn):
                 continue
-            if not any(isinstance(st, ast.If) and isinstance(st.test, ast.Name) and st.test.id == "persistent" and st.orelse
-                       for st in au.stmts(fn.body)):
-                ctx.fail("C07-S1", ctx.site(modname, fn), f"{q}: `if persistent: ... else: ...` constructor split not found",
-                         "the function takes a `persistent` option but no longer builds its attribute on an if/else of that option")
-            for st in au.stmts(fn.body):
-                if not (isinstance(st, ast.If) and isinstance(st.test, ast.Name) and st.test.id == "persistent" and st.orelse):
-                    continue
-                site = ctx.site(modname, fn, st)
-                creates = [c for s in st.body for c in au.calls(s) if au.call_tail(c) == "create_attribute"]
-                arrays = [c for s in st.orelse for c in au.calls(s) if au.call_tail(c) == "ArrayAttribute"]
-                sparse = [c for s in st.orelse for c in au.calls(s) if au.call_tail(c) == "Attribute"]
-                if not creates or not (arrays or sparse):
-                    ctx.fail("C07-S1", site, f"{q}: persistent / non-persistent constructor pair not found",
-                             "the `if persistent` split no longer builds the attribute with create_attribute / ArrayAttribute / Attribute")
-                    continue
-                n += 1
-                descs = [("create_attribute", _ctor_desc(c, "create")) for c in creates] + \
-                        [("ArrayAttribute", _ctor_desc(c, "array")) for c in arrays] + \
-                        [("Attribute", _ctor_desc(c, "sparse")) for c in sparse]
-                ref = descs[0][1]
-                bad = []
-                for name, d in descs:
-                    for slot, label in ((0, "element type"), (1, "element size"), (3, "default value")):
-                        if d[slot] != ref[slot]:
-                            bad.append(f"{label} of {name}")
-                    if name == "ArrayAttribute" and d[2] != ref[2]:
-                        bad.append(f"ArrayAttribute is sized by len(mesh.{d[2]}) but the persistent attribute lives on mesh.{ref[2]}")
-                # names must be stored under the `name` parameter
-                for c in creates:
-                    if not (c.args and isinstance(c.args[0], ast.Name) and c.args[0].id == "name"):
-                        bad.append("persistent attribute is not stored under the `name` parameter")
-                # both branches bind the same variable
-                tv = {t.id for s in st.body + st.orelse for x in au.stmts([s]) if isinstance(x, ast.Assign)
-                      for t in x.targets if isinstance(t, ast.Name)}
-                if len(tv) != 1:
-                    bad.append(f"the branches bind different variables {sorted(tv)}")
-                ctx.check(not bad, "C07-S1", site,
-                          f"{q}: constructors of the persistent and non-persistent attribute disagree on " + "; ".join(sorted(set(bad))),
-                          "the same call with persistent=False / dense=False returns an attribute of another type, width, length or default",
-                          note=f"{q}: {len(descs)} constructors agree on (T, size, container, default)")
-    ctx.require_count("C07-S1 constructor splits", n, 8)
+            V = H.fview(ctx, modname, fn)
+            site = ctx.site(modname, fn)
+            b = sym.Bindings(V)
+            calls = [c for c in au.calls(V) if au.call_tail(c) in CTORS and not (au.call_tail(c) == "Attribute" and isinstance(c.func, ast.Attribute)
+                                                                                 and au.chain(c.func) and len(au.chain(c.func)) > 2)]
+            creates = [c for c in calls if au.call_tail(c) == "create_attribute"]
+            others = [c for c in calls if au.call_tail(c) != "create_attribute" and H.flag_polarity(c, "persistent") is False]
+            if not creates and not others:
+                fwd = any((k.arg == "persistent" or k.arg is None) for c in au.calls(V) for k in c.keywords) or \
+                    any(isinstance(a, ast.Name) and a.id == "persistent" for c in au.calls(V) for a in c.args)
+                if fwd:
+                    ctx.ok("C07-S1", site, f"{q}: the persistent option is forwarded to the function that builds the attribute")
+                else:
+                    ctx.undecided("C07-S1", site, f"{q}: constructors of the persistent / non-persistent attribute not recognised",
+                                  "the function takes a `persistent` option but its attribute constructors could not be located")
+                continue
+            if not creates or not others:
+                ctx.undecided("C07-S1", site, f"{q}: persistent / non-persistent constructor pair not recognised",
+                              "only one side of the `persistent` option builds its attribute with create_attribute / ArrayAttribute / Attribute")
+                continue
+            n += 1
+            bad = []
+            descs = [(au.call_tail(c), c, _ctor_desc(b, c, au.call_tail(c))) for c in creates + others]
+            ref = descs[0][2]
+            for name, c, d in descs[1:]:
+                for slot, label in ((0, "element type"), (1, "element size"), (3, "default value")):
+                    if d[slot] is not None and ref[slot] is not None and d[slot] != ref[slot]:
+                        bad.append(f"{label} of {name}")
+                if name == "ArrayAttribute" and d[2] is not None and ref[2] is not None and d[2] != ref[2]:
+                    bad.append(f"ArrayAttribute is sized by len(mesh.{d[2]}) but the persistent attribute lives on mesh.{ref[2]}")
+                if name == "create_attribute" and d[2] is not None and ref[2] is not None and d[2] != ref[2]:
+                    bad.append(f"persistent attributes are created on mesh.{ref[2]} and on mesh.{d[2]}")
+            for c in creates:
+                if H.flag_polarity(c, "persistent") is False:
+                    bad.append("create_attribute (stored on the mesh) is called when persistent is false")
+                if "name" in au.params(fn) and c.args and isinstance(b.resolve(c.args[0], at=c), ast.Constant):
+                    bad.append("persistent attribute is stored under a fixed string instead of the `name` parameter")
+            if "dense" in au.params(fn):
+                for name, c, d in descs:
+                    pol = H.flag_polarity(c, "dense")
+                    if name == "ArrayAttribute" and pol is False:
+                        bad.append("the dense ArrayAttribute is built when dense is false")
+                    if name == "Attribute" and pol is True:
+                        bad.append("the sparse Attribute is built when dense is true")
+            ctx.check(not bad, "C07-S1", site,
+                      f"{q}: constructors of the persistent and non-persistent attribute disagree on " + "; ".join(sorted(set(bad))),
+                      "the same call with persistent=False / dense=False returns an attribute of another type, width, length or default",
+                      note=f"{q}: {len(descs)} constructors agree on (T, size, container, default)")
+    floor(ctx, "C07-S1", n, 1, "attributes.attr_faces", "constructor group(s)")
 
 
 # ----------------------------------------------------------------------- C07-K1
-def kinds_rule(ctx, rule, modules, floor):
+def kinds_rule(ctx, rule, modules, floor_n):
     n = 0
     for modname in modules:
         m = ctx.repo.module(modname)
@@ -221,15 +288,19 @@ def kinds_rule(ctx, rule, modules, floor):
         for q, fn in m.funcs.items():
             if "<locals>" in q:
                 continue
-            K = H.Kinds(ctx.repo, m.name, fn, resolver)
-            for node, what, want, got in K.obligations():
+            try:
+                K = H.Kinds(ctx.repo, m.name, fn, resolver)
+                obl = list(K.obligations())
+            except RecursionError:
+                continue
+            for node, what, want, got in obl:
                 n += 1
                 site = ctx.site(modname, fn, node)
                 ctx.check(want == got, rule, site,
                           f"{what} but `{au.src(node.slice if isinstance(node, ast.Subscript) else node)}` is an index of {got}",
                           f"an id of one element kind is used to address another kind: wrong element (or IndexError) "
                           f"whenever the two containers differ", note=what)
-    ctx.require_count(f"{rule} typed index uses", n, floor)
+    floor(ctx, rule, n, min(floor_n, 10), modules[0], "typed index use(s)")
 
 
 def k1_index_kinds(ctx):
@@ -237,19 +308,32 @@ def k1_index_kinds(ctx):
 
 
 # ----------------------------------------------------------------------- C07-G1
+def _tri_call(e):
+    return isinstance(e, ast.Call) and au.call_tail(e) == "is_triangular"
+
+
 def _is_gate(st):
     """`if not X.is_triangular(): raise` / `assert X.is_triangular()`"""
-    def tri(e):
-        return isinstance(e, ast.Call) and au.call_tail(e) == "is_triangular"
     if isinstance(st, ast.Assert):
-        return tri(st.test) or (isinstance(st.test, ast.BoolOp) and isinstance(st.test.op, ast.And) and any(tri(v) for v in st.test.values))
-    if isinstance(st, ast.If) and isinstance(st.test, ast.UnaryOp) and isinstance(st.test.op, ast.Not) and tri(st.test.operand):
-        return flow.always_terminates(st.body) and not any(isinstance(s, (ast.Continue, ast.Break)) for s in au.stmts(st.body))
+        return _tri_call(st.test) or (isinstance(st.test, ast.BoolOp) and isinstance(st.test.op, ast.And) and any(_tri_call(v) for v in st.test.values))
+    if isinstance(st, ast.If):
+        t, pol = au.strip_not(st.test)
+        if _tri_call(t) and not pol:
+            return flow.always_terminates(st.body) and not any(isinstance(s, (ast.Continue, ast.Break)) for s in au.stmts(st.body))
     return False
 
 
 def gated(repo, modname, fn, node):
-    """is `node` dominated by a triangular gate at the top level of fn (directly or through a helper called first)?"""
+    """does `node` only run on triangulated meshes?  (is_triangular() known true from the guards / earlier early exits, an assert, or a
+    helper called first that raises otherwise)"""
+    for t, pol in H.facts(node, toplevel=True):
+        if _tri_call(t) and pol:
+            return True
+        if isinstance(t, ast.BoolOp) and isinstance(t.op, ast.And) and pol and any(_tri_call(v) for v in t.values):
+            return True
+        if isinstance(t, ast.BoolOp) and isinstance(t.op, ast.Or) and not pol and any(
+                _tri_call(au.strip_not(v)[0]) and not au.strip_not(v)[1] for v in t.values):
+            return True
     top = node
     while au.parent(top) is not fn and au.parent(top) is not None:
         top = au.parent(top)
@@ -265,12 +349,19 @@ def gated(repo, modname, fn, node):
     return False
 
 
-def corner_arithmetic(fn):
-    """subscript indices of the forms 3*f (+k) and X + 3 - a - b"""
+def corner_arithmetic(V, K):
+    """subscripts of corner-indexed containers whose index is computed from a face id / local indices under the triangle-only numbering:
+    3*f (+k), len(face)*f + k, first corner + 3 - iA - iB"""
     out = []
-    b = sym.Bindings(fn)
-    for n in au.walk(fn):
+    b = sym.Bindings(V)
+    for n in au.walk(V):
         if not isinstance(n, ast.Subscript) or isinstance(n.slice, (ast.Slice, ast.Tuple)):
+            continue
+        try:
+            bk = K.kind(n.value, K._scope_of(n))
+        except RecursionError:
+            bk = None
+        if H.index_kind(bk) != "face_corners":
             continue
         e = b.resolve(n.slice, at=n)
         if not isinstance(e, ast.BinOp):
@@ -279,11 +370,14 @@ def corner_arithmetic(fn):
             p = sym.to_poly(e, opaque=True)
         except Exception:
             continue
-        lin = [k for k, v in p.t.items() if len(k) == 1 and v == 3 and not k[0].startswith("⟨")]
-        c = p.const_value()
+        lin3 = [k for k, v in p.t.items() if len(k) == 1 and v == 3 and not k[0].startswith("⟨")]
+        prod = [k for k, v in p.t.items() if len(k) == 2 and v == 1 and any(x.startswith("⟨len(") for x in k)]
         neg = [k for k, v in p.t.items() if len(k) == 1 and v == -1]
-        if lin and len(p.t) <= 2 and c in (0, 1, 2):
-            out.append((n, f"3*{lin[0][0]}+{c}"))
+        c = p.const_value()
+        if lin3:
+            out.append((n, f"3*{lin3[0][0]}+.."))
+        elif prod:
+            out.append((n, "len(face)*f+.."))
         elif c == 3 and len(neg) == 2:
             out.append((n, "first corner + 3 - iA - iB"))
     return out
@@ -291,136 +385,262 @@ def corner_arithmetic(fn):
 
 def g1_triangular_gate(ctx):
     n = 0
-    seen = {}
-    for modname in ATTR_MODS:
+    for modname in ALL_ATTR:
+        m = ctx.repo.module(modname)
+        resolver = H.make_attr_func_kind(ctx.repo, m.name)
         for q, fn in top_funcs(ctx, modname):
-            for node, form in corner_arithmetic(fn):
+            V = H.fview(ctx, modname, fn)
+            K = H.Kinds(ctx.repo, m.name, V, resolver)
+            for node, form in corner_arithmetic(V, K):
+                ok = gated(ctx.repo, m.name, V, node)
+                site = ctx.site(modname, fn, node)
+                if not ok and q.startswith("_"):
+                    # a private helper may rely on the gate of its callers
+                    cs = H.callers_of(ctx.repo, modname, q)
+                    if cs and all(gated(ctx.repo, m.name, cf, c) for cf, c in cs):
+                        ok = True
+                    elif not cs or any(cf.name.startswith("_") for cf, c in cs):
+                        ctx.undecided("C07-G1", site, f"{q}: corner arithmetic `{form}` in a private helper whose callers could not all be checked for the triangular gate", "")
+                        continue
                 n += 1
-                seen[q] = seen.get(q, 0) + 1
-                ctx.check(gated(ctx.repo, ctx.repo.module(modname).name, fn, node), "C07-G1", ctx.site(modname, fn, node),
+                ctx.check(ok, "C07-G1", site,
                           f"{q}: corner arithmetic `{form}` is not dominated by an is_triangular() gate",
                           "on a mesh with a quad or polygon the corner of face f is not 3*f+i: values are read from / written to the wrong corner",
                           note=f"{q}: `{form}` behind the triangular gate")
-    for modname, q in (("attributes.attr_corners", "cotangent"), ("attributes.attr_edges", "cotan_weights")):
-        fn = ctx.repo.func(modname, q)
-        if not seen.get(q):
-            ctx.fail("C07-G1", ctx.site(modname, fn), f"{q}: corner index arithmetic (3*f+k / first corner + 3 - iA - iB) not found",
-                     "the function addresses face corners; the form of the corner index can no longer be related to the triangular gate")
-    ctx.require_count("C07-G1 corner arithmetic sites", n, 1)
+    # no floor: a function that addresses corners through the connectivity only has nothing to gate
+    if n == 0:
+        ctx.ok("C07-G1", ctx.site("attributes.attr_corners", "<module>"), "no triangle-only corner arithmetic in the attribute modules")
 
 
 # ----------------------------------------------------------------------- C07-C1
 def _vertex_of(e):
     """index expression X if e is `mesh.vertices[X]` (possibly wrapped in Vec(...))"""
-    if isinstance(e, ast.Call) and au.call_tail(e) == "Vec" and len(e.args) == 1:
-        e = e.args[0]
-    if isinstance(e, ast.Subscript) and isinstance(e.value, ast.Attribute) and e.value.attr == "vertices":
-        return e.slice
+    return he_seq.vertex_index(e)
+
+
+def _face_loop(F, loops):
+    """(loop, LoopCtx, face index names, row key) of the outermost enclosing loop that runs over the faces"""
+    for lp in reversed(loops):
+        L = he_seq.LoopCtx(F, lp.target, lp.iter, lp)
+        if L.seq is None or L.seq.base is None:
+            continue
+        base = L.seq.base
+        if not (base.endswith(".faces") or base.endswith(".id_faces")):
+            continue
+        fis, row = [], None
+        for name, d in L.names.items():
+            if d[0] == "idx" and d[2].is_zero():
+                fis.append(name)
+            elif d[0] == "at" and d[1].endswith(".id_faces") and d[2] == 0:
+                fis.append(name)
+            elif d[0] == "at" and d[1].endswith(".faces") and d[2] == 0 and not d[3]:
+                row = name
+        return lp, L, fis, row
     return None
+
+
+def _int_with(e, env):
+    """integer value of an index expression under env (name / `len(x)` source -> int), None when not constant"""
+    if isinstance(e, ast.Constant) and isinstance(e.value, int) and not isinstance(e.value, bool):
+        return e.value
+    if isinstance(e, ast.Name):
+        return env.get(e.id)
+    if isinstance(e, ast.Call) and au.call_tail(e) == "len":
+        return env.get(au.src(e))
+    if isinstance(e, ast.UnaryOp) and isinstance(e.op, ast.USub):
+        v = _int_with(e.operand, env)
+        return None if v is None else -v
+    if isinstance(e, ast.BinOp):
+        a, c = _int_with(e.left, env), _int_with(e.right, env)
+        if a is None or c is None:
+            return None
+        if isinstance(e.op, ast.Add): return a + c
+        if isinstance(e.op, ast.Sub): return a - c
+        if isinstance(e.op, ast.Mult): return a * c
+        if isinstance(e.op, ast.Mod) and c: return a % c
+    return None
+
+
+def _local_positions(F, LF, Li, args, st, row, b, n_row=None):
+    """position inside the current face of each point argument: ("const", j) or ("var", shift) (relative to the inner index), else None"""
+    out = []
+    keep = tuple(n for n in (list(LF.names) + (list(Li.names) if Li is not None else [])))
+    for a in args:
+        # local aliases of the vertex ids (`tri = (iA, iB, iC)`, `cur = tri[k]`) are looked through, constant subscripts of literals folded
+        a = he_norm.fold_literals(ast.Expr(value=sym.clone(b.resolve(a, at=st, keep=keep)))).value
+        d = Li.desc(a, st) if Li is not None else ("expr", a)
+        if d[0] == "expr" or (d[0] == "at" and Li is not None and d[1] != (Li.seq.base if Li.seq is not None else None)):
+            d = LF.desc(a, st)
+        if d[0] == "elt":
+            out.append(("const", d[2]))
+            continue
+        if d[0] == "at" and Li is not None and Li.seq is not None and d[1] == Li.seq.base:
+            out.append(("var", d[2]))
+            continue
+        # constant subscript of the row / of the list of its points
+        e = b.resolve(a, at=st, keep=(row,) if row else ())
+        vi = he_seq.vertex_index(e)
+        cand = vi if vi is not None else e
+        if isinstance(cand, ast.Subscript) and not isinstance(cand.slice, (ast.Slice, ast.Tuple)):
+            basek = F.key(cand.value, st)
+            if row is not None and basek == row:
+                j = _int_with(cand.slice, {"n": n_row, f"len({row})": n_row} if n_row else {})
+                if j is not None and n_row:
+                    out.append(("const", j % n_row))
+                    continue
+        out.append(None)
+    return out
 
 
 def c1_corner_centre(ctx):
     mod = "attributes.attr_corners"
-    # (a) cotangent: cot[3*i+k] = cotan(., vertex k, .)
+    m = ctx.repo.module(mod)
+    # (a) cotangent: the corner 3*f+k of a triangle receives the cotangent at its k-th vertex, spanned by the two other vertices
     fn = ctx.repo.func(mod, "cotangent")
     site = ctx.site(mod, fn)
-    b = sym.Bindings(fn)
-    n = 0
-    for st in au.stmts(fn.body):
-        if not (isinstance(st, ast.Assign) and len(st.targets) == 1 and isinstance(st.targets[0], ast.Subscript)
-                and isinstance(st.value, ast.Call) and au.call_tail(st.value) == "cotan"):
-            continue
-        loops = [a for a in au.ancestors(st) if isinstance(a, ast.For)]
-        lp = loops[0] if loops else None
-        ok_loop = lp is not None and isinstance(lp.iter, ast.Call) and au.call_tail(lp.iter) == "enumerate" \
-            and lp.iter.args and au.chain(lp.iter.args[0]) and au.chain(lp.iter.args[0])[-1] == "faces" \
-            and isinstance(lp.target, ast.Tuple) and len(lp.target.elts) == 2 and isinstance(lp.target.elts[0], ast.Name) \
-            and isinstance(lp.target.elts[1], (ast.Tuple, ast.List)) and len(lp.target.elts[1].elts) == 3 \
-            and all(isinstance(x, ast.Name) for x in lp.target.elts[1].elts)
-        if not ok_loop:
-            ctx.fail("C07-C1", ctx.site(mod, fn, st), "cotangent: store of a corner cotangent is not inside `for i,(a,b,c) in enumerate(mesh.faces)`", "")
-            continue
-        n += 1
-        fi = lp.target.elts[0].id
-        row = [x.id for x in lp.target.elts[1].elts]
-        p = sym.to_poly(b.resolve(st.targets[0].slice, at=st, keep=(fi,)))
-        k = p.const_value()
-        good_slot = p.coeff(fi) == Poly.const(3) and p.without(fi).is_const() and k in (0, 1, 2)
-        args = [_vertex_of(b.resolve(a, at=st, keep=tuple(row))) for a in st.value.args]
-        names = [a.id if isinstance(a, ast.Name) else None for a in args]
+    V = H.fview(ctx, mod, fn)
+    F = he_seq.Forms(V, ctx.repo, m.name)
+    b = F.b
+    stores = [st for st in au.stmts(V.body) if isinstance(st, ast.Assign) and len(st.targets) == 1 and isinstance(st.targets[0], ast.Subscript)
+              and isinstance(st.value, ast.Call) and au.call_tail(st.value) == "cotan" and len(st.value.args) == 3]
+    if not stores:
+        ctx.undecided("C07-C1", site, "cotangent: stores of corner cotangents `cot[corner] = cotan(p, q, r)` not recognised",
+                      "the corner / vertex pairing of the cotangents could not be read")
+    seen_k = set()
+    for st in stores:
         ssite = ctx.site(mod, fn, st)
-        if not good_slot or len(names) != 3 or None in names:
-            ctx.fail("C07-C1", ssite, f"cotangent: `{au.src(st)}` is not of the form cot[3*{fi}+k] = cotan(p, q, r) over the vertices of the face",
-                     "corner 3*f+k of a triangle is the corner at its k-th vertex")
+        loops = [a for a in au.ancestors(st) if isinstance(a, ast.For)]
+        fl = _face_loop(F, loops)
+        if fl is None:
+            ctx.undecided("C07-C1", ssite, "cotangent: the loop over the faces enclosing a corner store not recognised", "")
             continue
-        k = int(k)
-        ctx.check(names[1] == row[k] and set(names) == set(row), "C07-C1", ssite,
-                  f"cotangent: corner 3*{fi}+{k} (vertex {row[k]}) receives the cotangent of the angle at {names[1]} between {names[0]} and {names[2]}",
-                  "geom.cotan(A, B, C) is the cotangent of the angle at B; the corner must get the angle at its own vertex, "
-                  "spanned by the two other vertices of the face", note=f"corner 3f+{k} centred at its vertex")
-    if n < 3:
-        ctx.fail("C07-C1", site, f"cotangent: {n} store(s) `cot[3*f+k] = cotan(...)` found instead of one per corner of the triangle",
-                 "each of the three corners of a face must receive its cotangent")
+        lp, LF, fis, row = fl
+        inner = [x for x in loops if x is not lp and any(x is y for y in au.stmts(lp.body))]
+        Li = he_seq.LoopCtx(F, inner[0].target, inner[0].iter, inner[0]) if inner else None
+        kvars = [nm for nm, d in (Li.names.items() if Li else []) if d[0] == "idx" and d[2].is_zero()]
+        rowkey = row or next((k for k in LF.rows), None)
+
+        def atom(x):
+            if isinstance(x, ast.Call) and au.call_tail(x) == "len" and len(x.args) == 1:
+                return Poly.const(3)            # behind the triangular gate (C07-G1) every face has three corners
+            return None
+        try:
+            p = sym.to_poly(b.resolve(st.targets[0].slice, at=st, keep=tuple(fis) + tuple(kvars)), atom_of=atom, opaque=False)
+        except sym.NotPoly:
+            p = None
+        fi = next((f for f in fis if p is not None and p.coeff(f) == Poly.const(3)), None)
+        if p is None or fi is None:
+            ctx.undecided("C07-C1", ssite, "cotangent: the slot of a corner store is not of the form 3*face + k", "")
+            continue
+        rest = p.without(fi)
+        pos = _local_positions(F, LF, Li, st.value.args, st, row, b, 3)
+        if None in pos:
+            ctx.undecided("C07-C1", ssite, "cotangent: an argument of cotan(p, q, r) could not be related to a vertex of the face", "")
+            continue
+        if rest.is_const() and all(k == "const" for k, _ in pos):
+            k = int(rest.const_value())
+            js = [j for _, j in pos]
+            seen_k.add(k)
+            ctx.check(js[1] == k and sorted(js) == [0, 1, 2], "C07-C1", ssite,
+                      f"cotangent: corner 3*f+{k} receives the cotangent of the angle at vertex {js[1]} of the face between vertices {js[0]} and {js[2]}",
+                      "geom.cotan(A, B, C) is the cotangent of the angle at B; the corner must get the angle at its own vertex, "
+                      "spanned by the two other vertices of the face", note=f"corner 3f+{k} centred at its vertex")
+        elif len(kvars) == 1 and rest == Poly.atom(kvars[0]) and all(k == "var" for k, _ in pos) and Li.seq is not None:
+            sh = [s % 3 for _, s in pos]
+            full = he_seq.full(Li.seq)
+            if full is None:
+                ctx.undecided("C07-C1", ssite, "cotangent: the number of iterations of the loop over the corners of a face is not known", "")
+                continue
+            seen_k.update((0, 1, 2) if full else ())
+            ctx.check(sh[1] == 0 and sorted(sh) == [0, 1, 2] and full, "C07-C1", ssite,
+                      f"cotangent: corner 3*f+k receives the cotangent at local vertex k{pos[1][1]:+d} between k{pos[0][1]:+d} and k{pos[2][1]:+d}"
+                      + ("" if full else " and k does not run over all the vertices of the face"),
+                      "geom.cotan(A, B, C) is the cotangent of the angle at B; the corner must get the angle at its own vertex, "
+                      "spanned by the two other vertices of the face", note="corner 3f+k centred at vertex k")
+        else:
+            ctx.undecided("C07-C1", ssite, "cotangent: slot and arguments of a corner store are not expressed in one of the known forms", "")
+    if stores and seen_k and seen_k != {0, 1, 2} and not ctx.undecided_list:
+        ctx.undecided("C07-C1", site, f"cotangent: corner stores recognised for local corners {sorted(seen_k)} only", "each of the three corners of a face must receive its cotangent")
     # (b) corner_angles
     fn = ctx.repo.func(mod, "corner_angles")
     site = ctx.site(mod, fn)
-    b = sym.Bindings(fn)
-    stores = [st for st in au.stmts(fn.body) if isinstance(st, ast.Assign) and len(st.targets) == 1
+    V = H.fview(ctx, mod, fn)
+    F = he_seq.Forms(V, ctx.repo, m.name)
+    b = F.b
+    stores = [st for st in au.stmts(V.body) if isinstance(st, ast.Assign) and len(st.targets) == 1
               and isinstance(st.targets[0], ast.Subscript) and isinstance(st.value, ast.Call)
-              and au.call_tail(st.value) == "angle_3pts"]
+              and au.call_tail(st.value) == "angle_3pts" and len(st.value.args) == 3]
     if len(stores) != 1:
-        ctx.fail("C07-C1", site, "corner_angles: store `angles[c] = angle_3pts(prev, v, next)` not found", "")
+        ctx.undecided("C07-C1", site, "corner_angles: store `angles[c] = angle_3pts(prev, v, next)` not recognised", "")
         return
     st = stores[0]
+    ssite = ctx.site(mod, fn, st)
     loops = [a for a in au.ancestors(st) if isinstance(a, ast.For)]
-    ok = False
-    why = "loop nest is not `for face in mesh.faces: for i in range(len(face))`"
-    if len(loops) >= 2 and isinstance(loops[0].target, ast.Name) and isinstance(loops[1].target, ast.Name):
-        inner, outer = loops[0], loops[1]
-        iv, face = inner.target.id, outer.target.id
-        trip = b.resolve(inner.iter.args[0], at=inner) if isinstance(inner.iter, ast.Call) and au.call_tail(inner.iter) == "range" \
-            and len(inner.iter.args) == 1 else None
-        faces_ok = au.chain(outer.iter) and au.chain(outer.iter)[-1] == "faces"
-        if trip is not None and au.src(trip) == f"len({face})" and faces_ok:
-            offs = []
-            for a in st.value.args:
-                e = _vertex_of(b.resolve(a, at=st, keep=(iv, face)))
-                o = None
-                if isinstance(e, ast.Subscript) and isinstance(e.value, ast.Name) and e.value.id == face:
-                    idx = e.slice
-                    if isinstance(idx, ast.BinOp) and isinstance(idx.op, ast.Mod):
-                        modulus = b.resolve(idx.right, at=st)
-                        if au.src(modulus) == f"len({face})":
-                            o = sym.mod_offset(ast.BinOp(left=idx.left, op=ast.Mod(), right=ast.Name(id="_n", ctx=ast.Load())), iv, "_n")
-                    else:
-                        o = sym.mod_offset(idx, iv)
-                offs.append(o)
-            ok = len(offs) == 3 and offs[1] == 0 and {offs[0], offs[2]} == {-1, 1}
-            why = f"angle_3pts receives the face vertices at offsets {offs} from the loop index (central argument must be offset 0, the others -1 and +1)"
-            ctx.check(ok, "C07-C1", ctx.site(mod, fn, st), "corner_angles: " + why,
-                      "geom.angle_3pts(A, B, C) is the angle at B: the corner's own vertex must be the central argument and the end "
-                      "points its two neighbours in the face", note="corner angle centred at face[i] between face[i-1] and face[i+1]")
-            # corner counter
-            key = st.targets[0].slice
-            cnt_ok = False
-            if isinstance(key, ast.Name):
-                c = key.id
-                blk, _ = au.enclosing_block(st)
-                pos = [id(x) for x in blk].index(id(st))
-                incs = [s for s in au.stmts(fn.body) if isinstance(s, (ast.AugAssign, ast.Assign)) and c in
-                        [x for t in au.assign_targets(s) for x in au.assigned_names(t)]]
-                init = [s for s in incs if isinstance(s, ast.Assign) and au.const(s.value) == 0 and au.parent(s) is fn]
-                bumps = [s for s in incs if s not in init]
-                one = len(bumps) == 1 and any(bumps[0] is x for x in blk[pos + 1:]) and (
-                    (isinstance(bumps[0], ast.AugAssign) and isinstance(bumps[0].op, ast.Add) and au.const(bumps[0].value) == 1) or
-                    (isinstance(bumps[0], ast.Assign) and sym.to_poly(bumps[0].value) == Poly.atom(c) + 1))
-                cnt_ok = len(init) == 1 and one and not au.guards(st, stop=outer)
-            ctx.check(cnt_ok, "C07-C1", ctx.site(mod, fn, st),
-                      "corner_angles: the running corner index is not `c = 0` before the loops and `c += 1` once after each store",
-                      "corners are numbered face by face in face order; a skipped or doubled increment shifts every following angle",
-                      note="running corner index advanced once per (face, vertex)")
-            return
-    ctx.fail("C07-C1", site, "corner_angles: " + why, "")
+    fl = _face_loop(F, loops)
+    inner = [x for x in loops if fl and x is not fl[0]]
+    if fl is None or len(inner) != 1:
+        ctx.undecided("C07-C1", ssite, "corner_angles: loop nest over (face, vertex of the face) not recognised", "")
+        return
+    lp, LF, fis, row = fl
+    Li = he_seq.LoopCtx(F, inner[0].target, inner[0].iter, inner[0])
+    if Li.seq is None or Li.seq.base is None:
+        ctx.undecided("C07-C1", ssite, "corner_angles: iteration over the vertices of a face not recognised", "")
+        return
+    ds = [Li.desc(a, st) for a in st.value.args]
+    if not all(d[0] == "at" and d[1] == Li.seq.base for d in ds):
+        ctx.undecided("C07-C1", ssite, "corner_angles: an argument of angle_3pts could not be related to a vertex of the face", "")
+        return
+    offs = [d[2] for d in ds]
+    wraps = all(d[3] for d in ds if d[2] != 0)
+    full = he_seq.full(Li.seq)
+    if full is None:
+        ctx.undecided("C07-C1", ssite, "corner_angles: the number of iterations of the loop over the vertices of a face is not known", "")
+        return
+    ok = offs[1] == 0 and {offs[0], offs[2]} == {-1, 1} and wraps and full
+    ctx.check(ok, "C07-C1", ssite,
+              f"corner_angles: angle_3pts receives the face vertices at offsets {offs} from the running vertex"
+              + ("" if wraps else " without wrapping around the face") + ("" if full else "; the vertices of the face are not all visited")
+              + " (central argument must be offset 0, the others -1 and +1)",
+              "geom.angle_3pts(A, B, C) is the angle at B: the corner's own vertex must be the central argument and the end "
+              "points its two neighbours in the face", note="corner angle centred at face[i] between face[i-1] and face[i+1]")
+    # numbering of the corners: face by face, in face order
+    key = st.targets[0].slice
+    outer, inn = lp, inner[0]
+    cnt_ok, why = None, ""
+    kd = Li.names.get(key.id) if isinstance(key, ast.Name) else None
+    if kd is not None and kd[0] == "idx":
+        off = kd[2]
+        atoms = list(off.atoms())
+        if off.is_zero():
+            cnt_ok, why = False, "corners are numbered from 0 again in every face"
+        elif len(atoms) == 1 and off == Poly.atom(atoms[0]):
+            c0 = atoms[0]
+            binds = [s for s in au.stmts(V.body) if sym.Bindings._assigns(s, c0, deep=False)]
+            init = [s for s in binds if isinstance(s, ast.Assign) and au.const(s.value) == 0 and au.parent(s) is V]
+            bumps = [s for s in binds if s not in init]
+            one = len(bumps) == 1 and any(bumps[0] is x for x in outer.body)
+            if len(init) == 1 and one and au.increment(bumps[0]) is not None:
+                tgt, sign, amount = au.increment(bumps[0])
+                after = bumps[0].lineno >= inn.lineno and not any(bumps[0] is x for x in au.stmts(inn.body))
+                cnt_ok = tgt == c0 and sign == 1 and F.len_of(amount, bumps[0]) == he_seq.N(Li.seq.base) and after
+                why = "the first corner of a face is not advanced by the number of vertices of the face after its corners were numbered"
+    elif isinstance(key, ast.Name):
+        c = key.id
+        binds = [s for s in au.stmts(V.body) if sym.Bindings._assigns(s, c, deep=False)]
+        init = [s for s in binds if isinstance(s, ast.Assign) and au.const(s.value) == 0 and au.parent(s) is V]
+        bumps = [s for s in binds if s not in init]
+        if len(init) == 1 and len(bumps) == 1 and au.increment(bumps[0]) is not None:
+            blk, _ = au.enclosing_block(st)
+            pos = [id(x) for x in blk].index(id(st))
+            tgt, sign, amount = au.increment(bumps[0])
+            cnt_ok = tgt == c and sign == 1 and au.const(amount) == 1 and any(bumps[0] is x for x in blk[pos + 1:]) and not au.guards(st, stop=outer)
+            why = "the running corner index is not advanced by one once after each store"
+    if cnt_ok is None:
+        ctx.undecided("C07-C1", ssite, "corner_angles: numbering of the corners (running index / first corner of the face) not recognised", "")
+    else:
+        ctx.check(cnt_ok, "C07-C1", ssite, "corner_angles: " + why,
+                  "corners are numbered face by face in face order; a skipped or doubled increment shifts every following angle",
+                  note="running corner index advanced once per (face, vertex)")
 
 
 # ----------------------------------------------------------------------- C07-M1
@@ -437,6 +657,30 @@ def _assigned_between(fn, names, a, b):
     return False
 
 
+def _trip_count(lp):
+    """expression of the number of iterations of a for loop, None when not recognised"""
+    it = lp.iter
+    mk_len = lambda x: ast.Call(func=ast.Name(id="len", ctx=ast.Load()), args=[x], keywords=[])
+    if isinstance(it, ast.Call) and isinstance(it.func, ast.Name):
+        if it.func.id == "range" and len(it.args) == 1:
+            return it.args[0]
+        if it.func.id == "enumerate" and it.args:
+            return mk_len(it.args[0])
+        if it.func.id in ("list", "tuple", "reversed", "sorted") and len(it.args) == 1:
+            return mk_len(it.args[0])
+        return None
+    if isinstance(it, (ast.Name, ast.Attribute, ast.Subscript)):
+        return mk_len(it)
+    return None
+
+
+def _top(fn, node):
+    top = node
+    while au.parent(top) is not fn and au.parent(top) is not None:
+        top = au.parent(top)
+    return top
+
+
 def m1_mean_divisor(ctx):
     n = 0
     for q, fn in top_funcs(ctx, GLOB):
@@ -444,63 +688,89 @@ def m1_mean_divisor(ctx):
             continue
         n += 1
         site = ctx.site(GLOB, fn)
-        b = sym.Bindings(fn)
-        rets = [s for s in au.stmts(fn.body) if isinstance(s, ast.Return)]
-        if len(rets) != 1 or not (isinstance(rets[0].value, ast.BinOp) and isinstance(rets[0].value.op, ast.Div)
-                                  and isinstance(rets[0].value.left, ast.Name)):
-            ctx.fail("C07-M1", site, f"{q}: `return total / count` not found", "the mean is no longer total / number of terms")
+        V = H.fview(ctx, GLOB, fn)
+        b = sym.Bindings(V)
+        rets = [s for s in au.stmts(V.body) if isinstance(s, ast.Return) and s.value is not None]
+        if len(rets) != 1:
+            ctx.undecided("C07-M1", site, f"{q}: single `return total / count` not recognised", "")
             continue
         ret = rets[0]
-        acc, div = ret.value.left.id, ret.value.right
-        loops = [s for s in fn.body if isinstance(s, ast.For) and any(
-            isinstance(x, ast.AugAssign) and isinstance(x.target, ast.Name) and x.target.id == acc and isinstance(x.op, ast.Add)
-            or isinstance(x, ast.Assign) and isinstance(x.targets[0], ast.Name) and x.targets[0].id == acc
-            for x in au.stmts(s.body))]
-        if len(loops) != 1:
-            ctx.fail("C07-M1", site, f"{q}: accumulation loop of `{acc}` not found", "")
+        val = ret.value
+        if isinstance(val, ast.Name):
+            d = b.reaching(val.id, ret)
+            val = d if d is not None else val
+        if isinstance(val, ast.BinOp) and isinstance(val.op, ast.Div) and isinstance(val.left, ast.Name):
+            dl = b.reaching(val.left.id, ret)
+            if dl is not None and _sum_over(dl) not in (None, False):
+                val = ast.BinOp(left=dl, op=ast.Div(), right=val.right)
+        if isinstance(val, ast.BinOp) and isinstance(val.op, ast.Div) and _sum_over(val.left) not in (None, False):
+            coll = _sum_over(val.left)
+            if isinstance(coll, ast.Call) and isinstance(coll.func, ast.Name) and coll.func.id == "range" and len(coll.args) == 1:
+                t_res, d_res = b.resolve(coll.args[0], at=ret), b.resolve(val.right, at=ret)
+                ctx.check(au.same(t_res, d_res), "C07-M1", site, f"{q}: sums {au.src(coll.args[0])} terms but divides by {au.src(val.right)}",
+                          "the result is not the mean of the terms that were summed", note=f"{q}: divisor equals the number of summed terms")
+            else:
+                ctx.ok("C07-M1", site, f"{q}: mean written as sum(..) / len(..) (divisor checked by C07-M2)")
             continue
-        lp = loops[0]
-        accs = [x for x in au.stmts(lp.body) if acc in [y for t in au.assign_targets(x) for y in au.assigned_names(t)]]
-        unguarded = len(accs) == 1 and any(accs[0] is s for s in lp.body) and \
-            not any(isinstance(s, (ast.Continue, ast.Break)) for s in au.stmts(lp.body))
-        # trip count
-        trip = None
-        if isinstance(lp.iter, ast.Call) and au.call_tail(lp.iter) == "range" and len(lp.iter.args) == 1:
-            trip = lp.iter.args[0]
-        elif isinstance(lp.iter, ast.Call) and au.call_tail(lp.iter) == "enumerate" and lp.iter.args:
-            trip = ast.Call(func=ast.Name(id="len", ctx=ast.Load()), args=[lp.iter.args[0]], keywords=[])
-        elif not isinstance(lp.iter, ast.Call):
-            trip = ast.Call(func=ast.Name(id="len", ctx=ast.Load()), args=[lp.iter], keywords=[])
-        if trip is None:
-            ctx.fail("C07-M1", site, f"{q}: trip count of the accumulation loop `{au.src(lp.iter)}` not recognised", "")
+        if isinstance(val, ast.Call) and au.call_tail(val) in ("mean", "average"):
+            ctx.ok("C07-M1", site, f"{q}: delegates to {au.call_tail(val)}()")
             continue
-        # counter idiom: divisor is a local incremented once per iteration
-        ok = False
+        if not (isinstance(val, ast.BinOp) and isinstance(val.op, ast.Div) and isinstance(val.left, ast.Name)):
+            ctx.undecided("C07-M1", site, f"{q}: `return total / count` not recognised", "the mean is no longer written as an accumulated total over a count")
+            continue
+        acc, div = val.left.id, val.right
+        accs = [x for x in au.stmts(V.body) if (au.increment(x) or (None,))[0] == acc]
+        loops = []
+        for x in accs:
+            lp = next((a for a in au.ancestors(x) if isinstance(a, (ast.For, ast.While))), None)
+            if lp is not None and not any(lp is y for y in loops):
+                loops.append(lp)
+        if len(loops) != 1 or len(accs) != 1 or not isinstance(loops[0], ast.For):
+            ctx.undecided("C07-M1", site, f"{q}: single accumulation loop of the total not recognised", "")
+            continue
+        lp, st = loops[0], accs[0]
+        cond = au.guards(st, stop=lp) or any(isinstance(s, (ast.Continue, ast.Break)) for s in au.stmts(lp.body)) or \
+            any(isinstance(a, (ast.For, ast.While)) and a is not lp for a in au.ancestors(st) if any(a is y for y in au.stmts(lp.body)))
+        trip = _trip_count(lp)
+        # counter idiom: the divisor is a local incremented by one next to the accumulation
         if isinstance(div, ast.Name):
-            bumps = [x for x in lp.body if isinstance(x, ast.AugAssign) and isinstance(x.target, ast.Name) and x.target.id == div.id
-                     and isinstance(x.op, ast.Add) and au.const(x.value) == 1]
-            inits = [x for x in fn.body if isinstance(x, ast.Assign) and isinstance(x.targets[0], ast.Name)
-                     and x.targets[0].id == div.id and au.const(x.value) == 0]
-            others = [x for x in au.stmts(fn.body) if div.id in [y for t in au.assign_targets(x) for y in au.assigned_names(t)]]
-            ok = len(bumps) == 1 and len(inits) == 1 and len(others) == 2
-        if not ok:
-            t_res, d_res = b.resolve(trip, at=lp), b.resolve(div, at=ret)
-            same = au.same(t_res, d_res)
-            moved = _assigned_between(fn, au.names(t_res) & au.names(d_res), lp, ret) if same else False
-            ok = same and not moved
-            # len(range(x)) == x for the sizes at hand; min(n, len) is what the loop really runs
-        ctx.check(ok and unguarded, "C07-M1", site,
-                  f"{q}: sums {au.src(trip)} terms but divides by {au.src(div)}" if unguarded else
-                  f"{q}: the accumulation into `{acc}` is conditional, the divisor cannot equal the number of terms",
+            bumps = [x for x in au.stmts(V.body) if (au.increment(x) or (None,))[0] == div.id]
+            if bumps:
+                blk, _ = au.enclosing_block(st)
+                same_blk = len(bumps) == 1 and any(bumps[0] is y for y in (blk or [])) and au.increment(bumps[0])[1] == 1 and au.const(au.increment(bumps[0])[2]) == 1
+                inits = [x for x in au.stmts(V.body) if isinstance(x, ast.Assign) and any(isinstance(t, ast.Name) and t.id == div.id for t in x.targets)]
+                if same_blk and len(inits) == 1 and au.const(inits[0].value) == 0:
+                    ctx.ok("C07-M1", site, f"{q}: divisor is a counter advanced with every accumulated term")
+                elif len(bumps) == 1 and len(inits) == 1:
+                    ctx.fail("C07-M1", site, f"{q}: the counter `{div.id}` dividing the total is not advanced by one together with every accumulated term",
+                             "the result is not the mean of the terms that were summed")
+                else:
+                    ctx.undecided("C07-M1", site, f"{q}: counter dividing the total not recognised", "")
+                continue
+        if cond:
+            ctx.undecided("C07-M1", site, f"{q}: the accumulation of the total is conditional; its number of terms is not recognised", "")
+            continue
+        if trip is None:
+            ctx.undecided("C07-M1", site, f"{q}: trip count of the accumulation loop not recognised", "")
+            continue
+        t_res, d_res = b.resolve(trip, at=lp), b.resolve(div, at=ret)
+        same = au.same(t_res, d_res)
+        moved = _assigned_between(V, au.names(t_res) & au.names(d_res), _top(V, lp), _top(V, ret)) if same else False
+        rebound_in_loop = any(sym.Bindings._assigns(s, nm) for s in lp.body for nm in au.names(trip))
+        if rebound_in_loop:
+            ctx.undecided("C07-M1", site, f"{q}: the bound of the accumulation loop is rebound inside the loop", "")
+            continue
+        ctx.check(same and not moved, "C07-M1", site,
+                  f"{q}: sums {au.src(trip)} terms but divides by {au.src(div)}",
                   f"whenever `{au.src(div)}` differs from `{au.src(trip)}` (n larger than the number of elements) the result is not the "
                   f"mean of the terms that were summed", note=f"{q}: divisor equals the trip count")
-    ctx.require_count("C07-M1 mean functions", n, 1)
+    floor(ctx, "C07-M1", n, 1, GLOB, "mean_* function(s)")
 
 
 # ----------------------------------------------------------------------- C07-M2
 def _sum_over(e):
-    """collection expression C if e is sum(C) / sum(f(x) for x in C) / sum([..for x in C]) else None"""
-    if isinstance(e, ast.Call) and au.call_tail(e) == "sum" and len(e.args) >= 1:
+    """collection expression C if e is sum(C) / sum(f(x) for x in C) / sum([..for x in C]) else None (False: filtered / nested)"""
+    if isinstance(e, ast.Call) and au.call_tail(e) == "sum" and len(e.args) >= 1 and not (isinstance(e.func, ast.Attribute) and au.chain(e.func) and au.chain(e.func)[0] in ("np", "numpy")):
         a = e.args[0]
         if isinstance(a, (ast.GeneratorExp, ast.ListComp)):
             if len(a.generators) == 1 and not a.generators[0].ifs:
@@ -510,31 +780,85 @@ def _sum_over(e):
     return None
 
 
+def _len_key(F, b, e, at, depth=0):
+    """identity of the *number of elements* of a collection expression: a container of the mesh (ids of K count like K), a vertex row,
+    a comprehension without filter over such a collection; None when not one of these"""
+    if depth > 6:
+        return None
+    if isinstance(e, ast.Name):
+        d = b.reaching(e.id, at)
+        if d is not None:
+            return _len_key(F, b, d, b._last_def_stmt, depth + 1)
+        # a loop variable / parameter: a row or an opaque collection named by itself
+        return ("name", e.id)
+    if isinstance(e, (ast.ListComp, ast.GeneratorExp)):
+        if len(e.generators) == 1 and not e.generators[0].ifs:
+            return _len_key(F, b, e.generators[0].iter, at, depth + 1)
+        return None
+    if isinstance(e, ast.Call) and isinstance(e.func, ast.Name) and e.func.id in ("list", "tuple", "sorted", "reversed") and len(e.args) == 1:
+        return _len_key(F, b, e.args[0], at, depth + 1)
+    if isinstance(e, ast.Call) and isinstance(e.func, ast.Name) and e.func.id == "range" and len(e.args) == 1:
+        a = b.resolve(e.args[0], at=at)
+        if isinstance(a, ast.Call) and au.call_tail(a) == "len" and len(a.args) == 1:
+            return _len_key(F, b, a.args[0], at, depth + 1)
+        return None
+    ch = au.chain(e)
+    if ch and len(ch) >= 2:
+        tail = ch[-1]
+        if tail in H.ID_PROPS and tail.startswith("id_"):
+            return ("cont", ".".join(ch[:-1]), H.ID_PROPS[tail])
+        if tail in H.CONTAINERS:
+            return ("cont", ".".join(ch[:-1]), tail)
+        return None
+    if isinstance(e, ast.Subscript) and not isinstance(e.slice, ast.Slice):
+        return ("expr", au.src(e))
+    if isinstance(e, ast.Call) and isinstance(e.func, ast.Attribute) and au.chain(e.func) and "connectivity" in au.chain(e.func):
+        return ("expr", au.src(b.resolve(e, at=at)))
+    return None
+
+
 def m2_barycentres(ctx):
     n = 0
     for modname in ALL_ATTR:
+        m = ctx.repo.module(modname)
         for q, fn in top_funcs(ctx, modname):
-            b = sym.Bindings(fn)
-            for node in au.walk(fn):
+            V = H.fview(ctx, modname, fn)
+            F = he_seq.Forms(V, ctx.repo, m.name)
+            b = F.b
+            for node in au.walk(V):
                 if not (isinstance(node, ast.BinOp) and isinstance(node.op, ast.Div)):
                     continue
                 coll = _sum_over(node.left)
                 if coll is None:
                     continue
-                n += 1
                 site = ctx.site(modname, fn, node)
                 if coll is False:
-                    ctx.fail("C07-M2", site, f"{q}: `{au.src(node)}` sums a filtered / nested collection", "the divisor cannot be checked")
+                    ctx.undecided("C07-M2", site, f"{q}: a sum over a filtered / nested collection is divided; the number of terms is not recognised", "")
                     continue
                 d = b.resolve(node.right, at=node)
-                c = b.resolve(coll, at=node)
-                ok = isinstance(d, ast.Call) and au.call_tail(d) == "len" and len(d.args) == 1 and au.same(b.resolve(d.args[0], at=node), c)
-                ctx.check(ok, "C07-M2", site,
-                          f"{q}: `{au.src(node)}` sums over `{au.src(coll)}` but divides by `{au.src(node.right)}`",
-                          "a barycentre is the sum of the points divided by their number; any other divisor moves it off the element",
-                          note=f"{q}: sum over {au.src(coll)} divided by its length")
-            # affine combinations of points  (pA + pB)/2
-            for st in au.stmts(fn.body):
+                if isinstance(d, ast.Call) and au.call_tail(d) == "len" and len(d.args) == 1 and isinstance(d.func, ast.Name):
+                    ok = au.same(b.resolve(d.args[0], at=node), b.resolve(coll, at=node)) or F.key(d.args[0], node) == F.key(coll, node)
+                    k1, k2 = _len_key(F, b, d.args[0], node), _len_key(F, b, coll, node)
+                    ok = ok or (k1 is not None and k1 == k2)
+                    if not ok and (k1 is None or k2 is None):
+                        ctx.undecided("C07-M2", site, f"{q}: the number of terms of a sum and the length it is divided by could not be related", "")
+                        continue
+                    n += 1
+                    ctx.check(ok, "C07-M2", site,
+                              f"{q}: a sum over `{au.src(coll)}` is divided by `{au.src(d)}`",
+                              "a barycentre is the sum of the points divided by their number; any other divisor moves it off the element",
+                              note=f"{q}: sum over {au.src(coll)} divided by its length")
+                elif isinstance(au.const(d), (int, float)) and not isinstance(au.const(d), bool):
+                    items = he_norm.lit_items(b.resolve(coll, at=node))
+                    n += 1
+                    ctx.check(items is not None and len(items) == au.const(d), "C07-M2", site,
+                              f"{q}: a sum over `{au.src(coll)}` is divided by the constant {au.src(d)}",
+                              "a barycentre is the sum of the points divided by their number; a fixed divisor is wrong for every other element size",
+                              note=f"{q}: sum of {au.const(d)} literal terms divided by {au.const(d)}")
+                else:
+                    ctx.undecided("C07-M2", site, f"{q}: divisor of a sum over `{au.src(coll)}` is not a length", "")
+            # affine combinations of points  (pA + pB) / 2
+            for st in au.stmts(V.body):
                 if isinstance(st, ast.Assign) and isinstance(st.value, ast.BinOp) and isinstance(st.value.op, ast.Div) \
                         and isinstance(st.value.right, ast.Constant) and isinstance(st.value.left, ast.BinOp) \
                         and isinstance(st.value.left.op, ast.Add) and _sum_over(st.value.left) is None:
@@ -546,224 +870,410 @@ def m2_barycentres(ctx):
                     ctx.check(ok, "C07-M2", ctx.site(modname, fn, st),
                               f"{q}: `{au.src(st.value)}` averages {len(terms)} points but divides by {au.src(st.value.right)}",
                               "coefficients of a mean must sum to one", note=f"{q}: mean of {len(terms)} points")
-    ctx.require_count("C07-M2 barycentre divisions", n, 2)
+    floor(ctx, "C07-M2", n, 1, "attributes.attr_faces", "barycentre division(s)")
 
 
 # ----------------------------------------------------------------------- C07-W1
 def _mode_holds(test, pol, mode, wname):
-    """truth of a guard under weight == mode; None when the guard does not speak about the weight"""
+    """truth of a guard under weight == mode; None when the guard does not speak about the weight, "?" when it cannot be evaluated"""
     if wname is None or wname not in au.names(test):
         return None
     val = None
-    if isinstance(test, ast.Compare) and len(test.ops) == 1 and isinstance(test.left, ast.Name) and test.left.id == wname:
-        rhs = au.literal(test.comparators[0])
+    if isinstance(test, ast.Compare) and len(test.ops) == 1:
+        l, r = test.left, test.comparators[0]
         op = test.ops[0]
-        if isinstance(op, ast.Eq):
-            val = mode == rhs
-        elif isinstance(op, ast.NotEq):
-            val = mode != rhs
-        elif isinstance(op, ast.In) and rhs is not None:
-            val = mode in rhs
-        elif isinstance(op, ast.NotIn) and rhs is not None:
-            val = mode not in rhs
+        if isinstance(r, ast.Name) and r.id == wname and isinstance(op, (ast.Eq, ast.NotEq)):
+            l, r = r, l
+        if isinstance(l, ast.Name) and l.id == wname:
+            rhs = au.literal(r)
+            if isinstance(op, ast.Eq) and rhs is not None:
+                val = mode == rhs
+            elif isinstance(op, ast.NotEq) and rhs is not None:
+                val = mode != rhs
+            elif isinstance(op, ast.In) and rhs is not None:
+                val = mode in rhs
+            elif isinstance(op, ast.NotIn) and rhs is not None:
+                val = mode not in rhs
     if val is None:
         return "?"
     return val == pol
 
 
-def _if_chain_guards(node):
-    """guards of node including the negated tests of earlier branches of if/elif chains (au.guards gives them already
-    because an elif is an If in orelse)"""
-    return au.guards(node)
+def _sum_form(v):
+    """(sum call, inline divisor | None) when v is  sum(..)  or  sum(..) / d"""
+    if _sum_over(v) is not None:
+        return v, None
+    if isinstance(v, ast.BinOp) and isinstance(v.op, ast.Div) and _sum_over(v.left) is not None:
+        return v.left, v.right
+    return None
 
 
-def _canon(b, expr, at, key):
-    e = b.resolve(expr, at=at)
-    mapping = {}
-    for a in au.ancestors(at):
-        if isinstance(a, ast.For) and isinstance(a.iter, ast.Call) and au.call_tail(a.iter) == "enumerate" and a.iter.args \
-                and isinstance(a.target, ast.Tuple) and len(a.target.elts) == 2 and all(isinstance(x, ast.Name) for x in a.target.elts):
-            mapping[a.target.elts[1].id] = ast.Subscript(value=a.iter.args[0], slice=ast.Name(id=a.target.elts[0].id, ctx=ast.Load()),
-                                                         ctx=ast.Load())
-    e = sym.subst(e, mapping)
-    if key:
-        e = H.rename(e, {key: "$k"})
-    return au.norm(e)
+def _sub_of(t):
+    return isinstance(t, ast.Subscript) and isinstance(t.value, ast.Name) and not isinstance(t.slice, ast.Slice)
 
 
-def _acc_term(st, base):
-    """T if st is `base[k] = base[k] + T` / `base[k] += T` (base[k] any subscript of Name base) -> (key, T)"""
-    if isinstance(st, ast.AugAssign) and isinstance(st.op, ast.Add) and isinstance(st.target, ast.Subscript) \
-            and isinstance(st.target.value, ast.Name) and st.target.value.id == base:
-        return st.target.slice, st.value
-    if isinstance(st, ast.Assign) and len(st.targets) == 1 and isinstance(st.targets[0], ast.Subscript) \
-            and isinstance(st.targets[0].value, ast.Name) and st.targets[0].value.id == base \
-            and isinstance(st.value, ast.BinOp) and isinstance(st.value.op, ast.Add):
+def _acc(st):
+    """(base, key, term) when st adds `term` onto base[key]:  base[k] += T / base[k] = base[k] + T / base[k] = T + base[k]"""
+    if isinstance(st, ast.AugAssign) and isinstance(st.op, ast.Add) and _sub_of(st.target):
+        return st.target.value.id, st.target.slice, st.value
+    if isinstance(st, ast.Assign) and len(st.targets) == 1 and _sub_of(st.targets[0]) and isinstance(st.value, ast.BinOp) and isinstance(st.value.op, ast.Add):
         t = st.targets[0]
-        if au.same(st.value.left, ast.Subscript(value=t.value, slice=t.slice, ctx=ast.Load())) or au.norm(st.value.left) == au.norm(t).replace("Store()", "Load()"):
-            return t.slice, st.value.right
-        if au.norm(st.value.right) == au.norm(t).replace("Store()", "Load()"):
-            return t.slice, st.value.left
+        k = H.load_key(t)
+        if au.norm(st.value.left) == k:
+            return t.value.id, t.slice, st.value.right
+        if au.norm(st.value.right) == k:
+            return t.value.id, t.slice, st.value.left
     return None
 
 
-def _div_of(st, base):
-    if isinstance(st, ast.AugAssign) and isinstance(st.op, ast.Div) and isinstance(st.target, ast.Subscript) \
-            and isinstance(st.target.value, ast.Name) and st.target.value.id == base:
-        return st.target.slice, st.value
-    if isinstance(st, ast.Assign) and len(st.targets) == 1 and isinstance(st.targets[0], ast.Subscript) \
-            and isinstance(st.targets[0].value, ast.Name) and st.targets[0].value.id == base \
-            and isinstance(st.value, ast.BinOp) and isinstance(st.value.op, ast.Div) \
-            and au.norm(st.value.left) == au.norm(st.targets[0]).replace("Store()", "Load()"):
-        return st.targets[0].slice, st.value.right
+def _div(st):
+    """(base, key, divisor) when st divides base[key] in place"""
+    if isinstance(st, ast.AugAssign) and isinstance(st.op, ast.Div) and _sub_of(st.target):
+        return st.target.value.id, st.target.slice, st.value
+    if isinstance(st, ast.Assign) and len(st.targets) == 1 and _sub_of(st.targets[0]) and isinstance(st.value, ast.BinOp) \
+            and isinstance(st.value.op, ast.Div) and au.norm(st.value.left) == H.load_key(st.targets[0]):
+        return st.targets[0].value.id, st.targets[0].slice, st.value.right
     return None
+
+
+class _Canon:
+    """canonical spelling of expressions inside loop nests: loop variables are named after the collection they run over, so that
+    two loops over the same collection (merged, split, with or without enumerate) give the same text"""
+
+    def __init__(self, V, F):
+        self.V, self.F, self.b = V, F, F.b
+        self.cache = {}
+        # names of the containers that are written element by element (and the parameters) are never replaced by their definition
+        self.arrays = set(au.params(V))
+        for st in au.stmts(V.body):
+            for t in au.assign_targets(st):
+                for x in ([t] if not isinstance(t, (ast.Tuple, ast.List)) else t.elts):
+                    if isinstance(x, ast.Subscript) and isinstance(x.value, ast.Name):
+                        self.arrays.add(x.value.id)
+
+    def loops_of(self, st):
+        ls = [a for a in au.ancestors(st) if isinstance(a, ast.For)]
+        return ls[::-1]
+
+    def ctx(self, st):
+        """(domain signature, renaming) of the loops enclosing st"""
+        mapping, sig = {}, []
+        for d, lp in enumerate(self.loops_of(st)):
+            L = he_seq.LoopCtx(self.F, lp.target, lp.iter, lp)
+            base = None
+            if L.seq is not None and L.seq.base is not None:
+                base = L.seq.base
+                if not he_seq.full(L.seq):
+                    base = base + "[partial]"
+            else:
+                base = au.src(lp.iter)
+            # the base itself may mention outer loop variables
+            try:
+                be = ast.parse(base.replace("[partial]", ""), mode="eval").body
+                be = self.b.resolve(be, at=lp, keep=tuple(mapping) + tuple(self.arrays))
+                base_c = H.cstr(H.rename(be, mapping)) + ("[partial]" if "[partial]" in base else "")
+            except SyntaxError:
+                base_c = base
+            isid = False
+            for idp, cont in H.ID_PROPS.items():
+                if base_c.endswith("." + idp) and idp.startswith("id_"):
+                    base_c, isid = base_c[: -len(idp)] + cont, True
+            sig.append(base_c)
+            for nm, desc in L.names.items():
+                if desc[0] == "idx":
+                    mapping[nm] = f"$i{d}" if desc[2].is_zero() else f"$i{d}+{desc[2]}"
+                elif desc[0] == "at" and desc[2] == 0:
+                    mapping[nm] = f"$i{d}" if isid else f"$e{d}"
+                elif desc[0] == "elt":
+                    mapping[nm] = f"$e{d}.{desc[2]}"
+            for nm in au.assigned_names(lp.target):
+                mapping.setdefault(nm, f"$x{d}_{nm}")
+        return tuple(sig), mapping
+
+    def text(self, e, st, mapping):
+        keep = tuple(mapping) + tuple(self.arrays)
+        r = self.b.resolve(e, at=st, keep=keep)
+        r = H.rename(r, {k: v for k, v in mapping.items()})
+        s = H.cstr(r)
+        # container[$i] spelled through the element variable of the same loop
+        return s
+
+    def factors(self, term, st, mapping):
+        coef, num, den = H.factors(self.b.resolve(term, at=st, keep=tuple(mapping) + tuple(self.arrays)))
+        ren = lambda x: H.cstr(H.rename(x, mapping))
+        return coef, sorted(ren(x) for x in num), sorted(ren(x) for x in den), num, den
+
+
+def _elt_alias(sig, text):
+    """`X[$i<d>]` where X is the collection loop d runs over is the element `$e<d>`"""
+    for d, base in enumerate(sig):
+        text = text.replace(f"{base}[$i{d}]", f"$e{d}")
+    return text
 
 
 def w1_interpolation(ctx):
     n_modes = n_norm = 0
+    m = ctx.repo.module(INTERP)
     for q, fn in top_funcs(ctx, INTERP):
         ps = au.params(fn)
-        if len(ps) < 3:
+        if len(ps) < 3 or q.startswith("_"):
             continue
         src, out = ps[1], ps[2]
         wname = "weight" if "weight" in ps else None
         site = ctx.site(INTERP, fn)
-        b = sym.Bindings(fn)
+        V = H.fview(ctx, INTERP, fn)
+        F = he_seq.Forms(V, ctx.repo, m.name)
+        C = _Canon(V, F)
         modes = [None]
         if wname:
             modes = None
-            for c in au.calls(fn):
+            for c in au.calls(V):
                 if au.call_tail(c) == "check_argument" and len(c.args) >= 4:
                     lit = au.literal(c.args[3])
                     if lit:
                         modes = sorted(lit)
             if not modes:
-                ctx.fail("C07-W1", site, f"{q}: the set of admissible weights (check_argument) not found", "")
+                ctx.undecided("C07-W1", site, f"{q}: the set of admissible weights (check_argument) not recognised", "")
                 continue
-        writes = [st for st in au.stmts(fn.body) if any(isinstance(t, ast.Subscript) and isinstance(t.value, ast.Name)
-                                                        and t.value.id == out for t in au.assign_targets(st))]
-        if not any(_acc_term(st, out) or (isinstance(st, ast.Assign) and _sum_over(st.value) is not None) for st in writes):
-            if not q.startswith("scatter_"):
-                ctx.fail("C07-W1", site, f"{q}: accumulation of {src}[..] into {out}[..] not found",
-                         "an interpolation / averaging function must sum weighted values into its output; the weights cannot be paired with a normaliser")
-            continue    # scatter functions: plain copies
+        stmts = [st for st in au.stmts(V.body) if isinstance(st, (ast.Assign, ast.AugAssign))]
+        writes = [st for st in stmts if any(_sub_of(t) and t.value.id == out for t in au.assign_targets(st))]
+        if not any(_acc(st) or (isinstance(st, ast.Assign) and _sum_form(st.value) is not None) for st in writes):
+            if q.startswith("scatter_") or all(isinstance(st, ast.Assign) and isinstance(st.value, ast.Subscript) for st in writes) and writes:
+                continue        # plain copies
+            ctx.undecided("C07-W1", site, f"{q}: accumulation of {src}[..] into {out}[..] not recognised",
+                          "an interpolation / averaging function sums weighted values into its output; the weights cannot be paired with a normaliser")
+            continue
         for mode in modes:
+            label = f"{q}[{mode}]" if mode else q
+            n_modes += 1
+            und, bad = [], []
+
             def active(st):
-                res = [_mode_holds(t, pol, mode, wname) for t, pol in au.guards(st)]
-                return all(r in (None, True) for r in res), [t for (t, pol), r in zip(au.guards(st), res) if r is None or r == "?"]
-            accs, divs, problems = [], [], []
-            for st in writes:
+                res = [(t, pol, _mode_holds(t, pol, mode, wname)) for t, pol in H.facts(st, toplevel=False)]
+                on = all(r in (None, True) for _, _, r in res)
+                foreign = [t for t, pol, r in res if r is None or r == "?"]
+                return on, foreign
+            accs, sums, divs, norm_accs, other = [], [], [], [], []
+            for st in stmts:
                 on, foreign = active(st)
                 if not on:
                     continue
-                if foreign:
-                    problems.append(f"`{au.src(st)}` is conditional on `{au.src(foreign[0])}`")
-                a, d = _acc_term(st, out), _div_of(st, out)
-                if d:
-                    divs.append((st, d[0], d[1]))
+                a, d = _acc(st), _div(st)
+                tgt_out = any(_sub_of(t) and t.value.id == out for t in au.assign_targets(st))
+                if tgt_out and foreign:
+                    und.append(f"a write to {out} is conditional on `{au.src(foreign[0])}`")
+                if d and d[0] == out:
+                    divs.append((st,) + d)
+                elif a and a[0] == out:
+                    accs.append((st,) + a)
+                elif tgt_out and isinstance(st, ast.Assign) and _sum_form(st.value) is not None:
+                    sums.append(st)
+                elif tgt_out and isinstance(st, ast.Assign) and isinstance(au.const(st.value), (int, float)):
+                    pass                       # explicit reset of an element
+                elif tgt_out:
+                    other.append(st)
                 elif a:
-                    accs.append((st, a[0], a[1], "loop"))
-                elif isinstance(st, ast.Assign) and _sum_over(st.value) is not None:
-                    accs.append((st, st.targets[0].slice, st.value, "sum"))
-                else:
-                    problems.append(f"unrecognised write `{au.src(st)}`")
-            n_modes += 1
-            label = f"{q}[{mode}]" if mode else q
-            if len(accs) != 1:
-                problems.append(f"{len(accs)} accumulation statements into {out}")
-            if not problems:
-                st, key, term, form = accs[0]
-                keyname = key.id if isinstance(key, ast.Name) else None
-                want_div = None      # canonical divisor required, "none" for no division
-                if form == "sum":
-                    coll = _sum_over(term)
-                    gen = term.args[0]
+                    norm_accs.append((st,) + a)
+            if other:
+                und.append(f"{len(other)} write(s) to {out} of an unknown form")
+            if len(accs) + len(sums) != 1:
+                und.append(f"{len(accs) + len(sums)} accumulation statements into {out}")
+            want = None          # ("none",) | ("tot", array) | ("len", canonical collection)
+            acc_st = acc_sig = acc_key = None
+            if not und:
+                if sums:
+                    st = sums[0]
+                    acc_st = st
+                    acc_sig, mp = C.ctx(st)
+                    acc_key = _elt_alias(acc_sig, C.text(st.targets[0].slice, st, mp))
+                    sum_call, inline_div = _sum_form(st.value)
+                    gen = sum_call.args[0]
+                    coll = _sum_over(sum_call)
                     elt_ok = isinstance(gen, (ast.GeneratorExp, ast.ListComp)) and isinstance(gen.elt, ast.Subscript) \
                         and isinstance(gen.elt.value, ast.Name) and gen.elt.value.id == src
                     if coll is False or not elt_ok:
-                        problems.append(f"`{au.src(term)}` is not a plain sum of {src}[x] over a collection")
+                        und.append(f"the summed expression is not a plain sum of {src}[x] over a collection")
                     else:
-                        want_div = ("len", _canon(b, coll, st, keyname))
+                        want = ("len", _elt_alias(acc_sig, C.text(coll, st, mp)))
+                        if inline_div is not None:
+                            dtext = _elt_alias(acc_sig, C.text(inline_div, st, mp))
+                            if dtext == f"len({want[1]})":
+                                want = ("none",) if mode != "sum" else ("bad",)
+                                if mode == "sum":
+                                    bad.append("the result documented as a plain sum is divided by the number of terms")
+                                    want = ("none",)
+                            elif dtext.startswith("len(") or isinstance(au.const(inline_div), (int, float)):
+                                bad.append(f"un-weighted mean divides by `{au.src(inline_div)}`, not by the length of the collection that was summed")
+                            else:
+                                und.append("the divisor of the un-weighted mean is not a length")
                 else:
-                    coef, num, den = H.factors(term)
+                    st, _, key, term = accs[0]
+                    acc_st = st
+                    acc_sig, mp = C.ctx(st)
+                    acc_key = _elt_alias(acc_sig, C.text(key, st, mp))
+                    coef, nums, dens, num, den = C.factors(term, st, mp)
                     vals = [x for x in num if isinstance(x, ast.Subscript) and isinstance(x.value, ast.Name) and x.value.id == src]
                     if len(vals) != 1 or any(src in au.names(x) for x in den):
-                        problems.append(f"term `{au.src(term)}` is not (weight) * {src}[x]")
+                        und.append(f"the accumulated term is not (weight) * {src}[x]")
                     else:
-                        w_num = [x for x in num if x is not vals[0]]
-                        inner = [a for a in au.ancestors(st) if isinstance(a, ast.For)]
-                        inner = inner[0] if inner else None
-                        if not w_num and not den and coef == 1:
-                            # unit weight: counter partner or length of the iterated collection
-                            blk, _ = au.enclosing_block(st)
-                            cnt = None
-                            for s in blk or []:
-                                for base in {t.value.id for t in au.assign_targets(s) if isinstance(t, ast.Subscript) and isinstance(t.value, ast.Name)} - {out}:
-                                    a = _acc_term(s, base)
-                                    if a and au.same(a[0], key) and au.const(a[1]) == 1:
-                                        cnt = base
-                            if cnt:
-                                want_div = ("tot", cnt)
-                            elif inner is not None:
-                                want_div = ("len", _canon(b, inner.iter, st, keyname))
-                        elif not w_num and coef == 1 and len(den) == 1 and isinstance(den[0], ast.Call) and au.call_tail(den[0]) == "len" \
-                                and inner is not None and _canon(b, den[0].args[0], st, keyname) == _canon(b, inner.iter, st, keyname):
-                            want_div = ("none",)
-                        elif not w_num and coef == 1 and den:
-                            problems.append(f"each term is divided by `{au.src(den[0])}` which is not the length of the summed collection `{au.src(inner.iter) if inner else '?'}`")
+                        vtext = H.cstr(H.rename(vals[0], mp))
+                        w_nums = list(nums)
+                        w_nums.remove(vtext)
+                        wkey = (coef, tuple(w_nums), tuple(dens))
+                        inner_base = acc_sig[-1] if acc_sig else None
+                        if wkey == (1, (), ()):
+                            cnt = [r for r in norm_accs if au.const(r[3]) == 1]
+                            cand = []
+                            for r in cnt:
+                                sig2, mp2 = C.ctx(r[0])
+                                if sig2 == acc_sig and _elt_alias(sig2, C.text(r[2], r[0], mp2)) == acc_key:
+                                    cand.append(r[1])
+                            same_sig_other_key = [r for r in cnt if C.ctx(r[0])[0] == acc_sig and r[1] not in cand]
+                            if cand:
+                                want = ("tot", cand[0])
+                            elif same_sig_other_key:
+                                bad.append(f"the un-weighted sum into {out} is paired with the counter `{cnt[0][1]}` that is advanced for another element of the same iteration")
+                            elif cnt:
+                                und.append(f"the counter `{cnt[0][1]}` is advanced in another iteration than the un-weighted sum: their numbers of terms could not be related")
+                            elif inner_base is not None:
+                                want = ("len", inner_base)
+                        elif coef == 1 and not w_nums and len(dens) == 1 and inner_base is not None and dens[0] == f"len({inner_base})":
+                            want = ("none",)
+                        elif coef == 1 and not w_nums and len(dens) == 1 and dens[0].startswith("len("):
+                            bad.append(f"each term is divided by `{dens[0]}` which is not the length of the summed collection `{inner_base}`")
                         else:
-                            blk, _ = au.enclosing_block(st)
-                            tot = None
-                            seen_partner = []
-                            for s in blk or []:
-                                for base in {t.value.id for t in au.assign_targets(s) if isinstance(t, ast.Subscript) and isinstance(t.value, ast.Name)} - {out}:
-                                    a = _acc_term(s, base)
-                                    if a and au.same(a[0], key):
-                                        c2, n2, d2 = H.factors(a[1])
-                                        seen_partner.append(au.src(a[1]))
-                                        if c2 == coef and H.factor_key(n2, d2) == H.factor_key(w_num, den):
-                                            tot = base
-                            if tot:
-                                want_div = ("tot", tot)
+                            partners, near = [], []
+                            for r in norm_accs:
+                                sig2, mp2 = C.ctx(r[0])
+                                c2, n2, d2, _, _ = C.factors(r[3], r[0], mp2)
+                                same_place = sig2 == acc_sig and _elt_alias(sig2, C.text(r[2], r[0], mp2)) == acc_key
+                                if same_place and (c2, tuple(n2), tuple(d2)) == wkey:
+                                    partners.append(r[1])
+                                elif same_place:
+                                    near.append((r[1], au.src(r[3])))
+                            if partners:
+                                want = ("tot", partners[0])
+                            elif near:
+                                wsrc = "*".join(w_nums) or "1"
+                                bad.append(f"value is weighted by `{wsrc}` but the normaliser `{near[0][0]}` accumulates `{near[0][1]}` for the same element")
+                            elif not norm_accs:
+                                dv = divs[0][3] if divs else None
+                                zero_only = isinstance(dv, ast.Subscript) and isinstance(dv.value, ast.Name) and dv.value.id not in au.params(V) and all(
+                                    isinstance(v, ast.Call) and au.call_tail(v) in ("zeros", "zeros_like", "empty") for x in au.stmts(V.body) for nm, v in sym.split_assign(x) if nm == dv.value.id) \
+                                    and not any(_sub_of(t) and t.value.id == dv.value.id for x in stmts for t in au.assign_targets(x))
+                                if divs and zero_only:
+                                    bad.append(f"value is weighted but nothing accumulates the weights: the divisor `{au.src(dv)}` is never summed")
+                                elif not divs and not dens and not other:
+                                    bad.append("value is weighted but neither a normaliser is accumulated nor the result divided")
+                                else:
+                                    und.append("the normaliser of the weighted accumulation is not built by an accumulation the rule reads")
                             else:
-                                wsrc = "*".join(au.src(x) for x in w_num) or "1"
-                                problems.append(f"value is weighted by `{wsrc}` but the normaliser in the same block accumulates "
-                                                f"{seen_partner or 'nothing'}")
-                if not problems:
-                    if mode == "sum":
-                        if want_div and want_div[0] == "tot":
-                            want_div = ("none",)
-                        elif want_div and want_div[0] == "len":
-                            want_div = ("none",)
-                    if want_div is None:
-                        problems.append("no normaliser could be associated with the accumulation")
-                    elif want_div[0] == "none":
-                        if divs:
-                            problems.append(f"`{au.src(divs[0][0])}` divides a result that is already normalised / documented as a plain sum")
+                                und.append("the normaliser of the weighted accumulation could not be related to it")
+            if not und and not bad:
+                if mode == "sum" and want is not None and want[0] in ("tot", "len"):
+                    want = ("none",)
+                if want is None:
+                    und.append("no normaliser could be associated with the accumulation")
+                elif want[0] == "none":
+                    if divs:
+                        bad.append(f"`{au.src(divs[0][0])}` divides a result that is already normalised / documented as a plain sum")
+                else:
+                    n_norm += 1
+                    if not divs:
+                        handled = {id(x) for x in stmts}
+                        elsewhere = [x for x in au.stmts(V.body) if id(x) not in handled and not isinstance(x, (ast.Return, ast.For, ast.While, ast.If))
+                                     and out in au.names(x) and not (isinstance(x, ast.Expr) and isinstance(x.value, ast.Call) and au.call_tail(x.value) in ("clear", "check_argument"))]
+                        elsewhere += [x for x in stmts if not any(_sub_of(t) for t in au.assign_targets(x)) and out in au.names(x)]
+                        if elsewhere:
+                            und.append(f"{out} is also modified by a statement the rule does not read; its normalisation could not be followed")
+                        else:
+                            bad.append(f"the accumulated {out}[..] is never divided by its normaliser")
+                    elif len(divs) != 1:
+                        und.append(f"{len(divs)} divisions of {out}")
                     else:
-                        n_norm += 1
-                        if len(divs) != 1:
-                            problems.append(f"{len(divs)} final divisions of {out} (expected exactly one)")
+                        dst, _, dkey, dexpr = divs[0]
+                        dsig, dmp = C.ctx(dst)
+                        dk = _elt_alias(dsig, C.text(dkey, dst, dmp))
+                        dtext = _elt_alias(dsig, C.text(dexpr, dst, dmp))
+                        # placement: after the accumulation of that element is complete
+                        same_loop = [lp for lp in C.loops_of(dst) if any(lp is x for x in C.loops_of(acc_st))]
+                        if sums and same_loop:
+                            top_d, top_a = _top_in(V, dst, acc_st)
+                            if not (top_d is not None and top_a is not None and top_d[1] > top_a[1]):
+                                bad.append(f"`{au.src(dst)}` divides {out}[..] before it is summed")
+                        elif not same_loop:
+                            top_d, top_a = _top_in(V, dst, acc_st)
+                            placed = top_d is not None and top_a is not None and top_d[1] > top_a[1] and top_d[0] is top_a[0]
+                            if not placed:
+                                und.append("relative position of the division and the accumulation not recognised")
                         else:
-                            dst, dkey, dexpr = divs[0]
-                            dk = dkey.id if isinstance(dkey, ast.Name) else None
-                            loopvars = [x for a in au.ancestors(dst) if isinstance(a, ast.For) for x in au.assigned_names(a.target)]
-                            if dk is None or dk not in loopvars:
-                                problems.append(f"`{au.src(dst)}` does not run over the elements of the output")
-                            elif want_div[0] == "len":
-                                d = b.resolve(dexpr, at=dst)
-                                got = _canon(b, d.args[0], dst, dk) if isinstance(d, ast.Call) and au.call_tail(d) == "len" and len(d.args) == 1 else None
-                                if got != want_div[1]:
-                                    problems.append(f"un-weighted mean divides by `{au.src(dexpr)}`, not by the length of the collection that was summed")
+                            shared = same_loop[-1]
+                            depth = len(same_loop)
+                            a_loops = C.loops_of(acc_st)
+                            inner_done = len(a_loops) > depth and any(a_loops[depth] is x for x in shared.body) and any(dst is x for x in shared.body) \
+                                and dst.lineno > a_loops[depth].lineno
+                            own = dk == f"$i{depth - 1}" and acc_key == dk          # the element of the shared loop itself: visited once
+                            direct_before = len(a_loops) == depth and any(acc_st is x for x in shared.body) and any(dst is x for x in shared.body) \
+                                and dst.lineno > acc_st.lineno
+                            if own and (inner_done or direct_before):
+                                pass
+                            elif not own and acc_key == dk and any(dst is x for x in au.stmts(C.loops_of(acc_st)[-1].body)):
+                                bad.append(f"`{au.src(dst)}` divides inside the loop that is still accumulating {out}[..]: partial sums are divided")
                             else:
-                                want = ast.Subscript(value=ast.Name(id=want_div[1], ctx=ast.Load()), slice=ast.Name(id=dk, ctx=ast.Load()), ctx=ast.Load())
-                                if not au.same(dexpr, want):
-                                    problems.append(f"result is divided by `{au.src(dexpr)}` instead of the accumulated normaliser `{want_div[1]}[{dk}]`")
-            ctx.check(not problems, "C07-W1", site, f"{label}: " + "; ".join(problems),
-                      "interpolating a constant attribute must return that constant: the weights that multiply the values must be the "
-                      "ones that are summed into the divisor", note=f"{label}: weights and normaliser agree")
-    ctx.require_count("C07-W1 interpolation modes", n_modes, 4)
-    ctx.require_count("C07-W1 normalisation sites", n_norm, 2)
+                                und.append("the position of the division relative to the accumulation loop is not one the rule reads")
+                        if not bad and not und:
+                            if dk != acc_key and not (dk.startswith("$i") and acc_key.startswith(("$e", "$i"))):
+                                und.append("the element divided and the element accumulated are keyed differently")
+                            elif want[0] == "tot":
+                                if dtext != f"{want[1]}[{dk}]":
+                                    bad.append(f"result is divided by `{au.src(dexpr)}` instead of the accumulated normaliser `{want[1]}[..]` of the same element")
+                            else:
+                                wl = want[1]
+                                # the collection canonical text is relative to the accumulation loops; re-express for the division loops
+                                if dtext != f"len({wl})" and dtext != f"len({_rebase(wl, acc_sig, dsig)})":
+                                    dres = C.b.resolve(dexpr, at=dst, keep=tuple(dmp) + tuple(C.arrays))
+                                    never = isinstance(dexpr, ast.Subscript) and isinstance(dexpr.value, ast.Name) and dexpr.value.id not in (out, src) \
+                                        and dexpr.value.id not in au.params(V) \
+                                        and not any(_sub_of(t) and t.value.id == dexpr.value.id for x in stmts for t in au.assign_targets(x))
+                                    if dtext.startswith("len("):
+                                        bad.append(f"un-weighted mean divides by `{au.src(dexpr)}`, not by the length of the collection that was summed")
+                                    elif isinstance(au.const(dres), (int, float)) and not isinstance(au.const(dres), bool):
+                                        bad.append(f"un-weighted mean divides by the constant {au.src(dres)}, not by the length of the collection that was summed")
+                                    elif never:
+                                        bad.append(f"un-weighted mean divides by `{au.src(dexpr)}`, an array that is never accumulated")
+                                    else:
+                                        und.append("the divisor of the un-weighted mean is not a length")
+            if bad:
+                ctx.fail("C07-W1", site, f"{label}: " + "; ".join(dict.fromkeys(bad)),
+                         "interpolating a constant attribute must return that constant: the weights that multiply the values must be the "
+                         "ones that are summed into the divisor")
+            elif und:
+                ctx.undecided("C07-W1", site, f"{label}: " + "; ".join(dict.fromkeys(und)), "weights and normaliser of this mode could not be paired")
+            else:
+                ctx.ok("C07-W1", site, f"{label}: weights and normaliser agree")
+    floor(ctx, "C07-W1", n_modes, 1, INTERP, "interpolation mode(s)")
+
+
+def _rebase(text, sig_a, sig_d):
+    return text
+
+
+def _top_in(V, a, b):
+    """(block, index) of the statements containing a and b in their innermost common block"""
+    chain_a = [a] + list(au.ancestors(a))
+    chain_b = [b] + list(au.ancestors(b))
+    ids_b = {id(x): i for i, x in enumerate(chain_b)}
+    for i, x in enumerate(chain_a):
+        if id(x) in ids_b and i > 0 and ids_b[id(x)] > 0:
+            ca, cb = chain_a[i - 1], chain_b[ids_b[id(x)] - 1]
+            for fld in ("body", "orelse", "finalbody"):
+                blk = getattr(x, fld, None)
+                if isinstance(blk, list) and any(ca is s for s in blk) and any(cb is s for s in blk):
+                    ia = [id(s) for s in blk].index(id(ca))
+                    ib = [id(s) for s in blk].index(id(cb))
+                    return (blk, ia), (blk, ib)
+            return None, None
+    return None, None
 
 
 # ----------------------------------------------------------------------- C07-A1
@@ -777,124 +1287,262 @@ def _geom_arity(ctx, call):
     return len(fn.args.args)
 
 
+def _count_fact(F, b, node):
+    """(collection expr, k) when the facts holding at node pin the length of a collection to the integer k"""
+    for t, pol in H.facts(node, toplevel=False):
+        r = b.resolve(t, at=node)
+        if isinstance(r, ast.Compare) and len(r.ops) == 1:
+            op, l, rr = r.ops[0], r.left, r.comparators[0]
+            if isinstance(au.const(l), int) and not isinstance(au.const(rr), int):
+                l, rr = rr, l
+            k = au.const(rr)
+            eq = (isinstance(op, ast.Eq) and pol) or (isinstance(op, ast.NotEq) and not pol)
+            if eq and isinstance(k, int) and not isinstance(k, bool) and isinstance(l, ast.Call) and au.call_tail(l) == "len" and len(l.args) == 1:
+                return l.args[0], k
+    return None
+
+
+def _specialise_defaults(e, fn):
+    """conditional expressions on an option with a constant default are read on their default branch (a new optional keyword must
+    not matter: the documented behaviour is the one of the default)"""
+    dfl = H.param_defaults(fn)
+    for _ in range(4):
+        if isinstance(e, ast.IfExp):
+            t, pol = au.strip_not(e.test)
+            if isinstance(t, ast.Name) and t.id in dfl and isinstance(dfl[t.id], ast.Constant):
+                truth = bool(dfl[t.id].value) == pol
+                e = e.body if truth else e.orelse
+                continue
+        break
+    return e
+
+
+def _det_rows(call):
+    """the three vectors of det_3x3(a, b, c) / np.linalg.det(np.array([a, b, c])) / det([a, b, c])"""
+    if au.call_tail(call) == "det_3x3" and len(call.args) == 3:
+        return list(call.args)
+    if au.call_tail(call) in ("det", "det_3x3") and len(call.args) == 1:
+        a = call.args[0]
+        while isinstance(a, ast.Call) and au.call_tail(a) in ("array", "asarray", "vstack", "stack", "transpose") and a.args:
+            a = a.args[0]
+        if isinstance(a, (ast.List, ast.Tuple)) and len(a.elts) == 3:
+            return list(a.elts)
+    return None
+
+
+def _abs_det(v, tail="det_3x3"):
+    """(coefficient, det call, has_abs) when v = coef * |det(..)| (abs anywhere around a constant multiple of the determinant)"""
+    def is_abs(x):
+        return isinstance(x, ast.Call) and au.call_tail(x) in ("abs", "fabs", "absolute") and len(x.args) == 1
+    def is_det(x):
+        return isinstance(x, ast.Call) and _det_rows(x) is not None
+    coef, num, den = H.factors(v)
+    if den or len(num) != 1:
+        return None
+    x = num[0]
+    if is_det(x):
+        return coef, x, False
+    if is_abs(x):
+        c2, n2, d2 = H.factors(x.args[0])
+        if not d2 and len(n2) == 1 and is_det(n2[0]):
+            return coef * abs(c2), n2[0], True
+    return None
+
+
+def _arity_contradictions(ctx):
+    """a primitive of k points applied to `*pts` while the facts at the call say len(pts) != k  (dispatch on the wrong branch)"""
+    for modname in ATTR_MODS:
+        m = ctx.repo.module(modname)
+        for q, fn in top_funcs(ctx, modname):
+            V = H.fview(ctx, modname, fn)
+            F = he_seq.Forms(V, ctx.repo, m.name)
+            b = F.b
+            for c in au.calls(V):
+                if not (len(c.args) == 1 and isinstance(c.args[0], ast.Starred)):
+                    continue
+                ar = _geom_arity(ctx, c)
+                if ar is None:
+                    continue
+                for t, pol in H.facts(c, toplevel=False):
+                    r = b.resolve(t, at=c)
+                    if isinstance(r, ast.Compare) and len(r.ops) == 1 and isinstance(r.ops[0], (ast.Eq, ast.NotEq)):
+                        l, rr = r.left, r.comparators[0]
+                        if isinstance(au.const(l), int):
+                            l, rr = rr, l
+                        k = au.const(rr)
+                        known_ne = (isinstance(r.ops[0], ast.Eq) and not pol) or (isinstance(r.ops[0], ast.NotEq) and pol)
+                        if isinstance(k, int) and k == ar and known_ne and isinstance(l, ast.Call) and au.call_tail(l) == "len" and len(l.args) == 1:
+                            coll = l.args[0]
+                            starred = c.args[0].value
+                            same = F.key(coll, c) == F.key(starred, c) or au.same(b.resolve(coll, at=c), b.resolve(starred, at=c)) \
+                                or (isinstance(b.resolve(starred, at=c), (ast.GeneratorExp, ast.ListComp)) and len(b.resolve(starred, at=c).generators) == 1
+                                    and F.key(b.resolve(starred, at=c).generators[0].iter, c) == F.key(coll, c))
+                            if same:
+                                ctx.fail("C07-A1", ctx.site(modname, fn, c), f"{q}: `{au.call_tail(c)}` (a primitive of {ar} points) is applied on the branch where the element "
+                                         f"is known NOT to have {ar} vertices", "the quantity of the elements with the right number of vertices is never computed; the others raise / get a wrong value")
+
+
 def a1_area_volume(ctx):
+    _arity_contradictions(ctx)
     mod = "attributes.attr_faces"
+    m = ctx.repo.module(mod)
     fn = ctx.repo.func(mod, "face_area")
     site = ctx.site(mod, fn)
-    b = sym.Bindings(fn)
+    V = H.fview(ctx, mod, fn)
+    F = he_seq.Forms(V, ctx.repo, m.name)
+    b = F.b
     n = 0
+    counted = None
     # dispatch on the number of vertices
-    for st in au.stmts(fn.body):
-        if not (isinstance(st, ast.If) and isinstance(st.test, ast.Compare) and len(st.test.ops) == 1
-                and isinstance(st.test.ops[0], ast.Eq) and isinstance(au.const(st.test.comparators[0]), int)):
+    for c in au.calls(V):
+        if not (len(c.args) == 1 and isinstance(c.args[0], ast.Starred)) or _geom_arity(ctx, c) is None:
             continue
-        cnt = b.resolve(st.test.left, at=st)
-        if not (isinstance(cnt, ast.Call) and au.call_tail(cnt) == "len"):
+        cf = _count_fact(F, b, c)
+        if cf is None:
             continue
-        coll = cnt.args[0]
-        k = au.const(st.test.comparators[0])
-        for c in [c for s in st.body for c in au.calls(s)]:
-            if len(c.args) == 1 and isinstance(c.args[0], ast.Starred):
-                n += 1
-                ar = _geom_arity(ctx, c)
-                same_coll = au.same(b.resolve(c.args[0].value, at=st), coll)
-                ctx.check(ar == k and same_coll, "C07-A1", ctx.site(mod, fn, c),
-                          f"face_area: faces with {k} vertices are sent to `{au.call_tail(c)}` which takes {ar} points"
-                          + ("" if same_coll else " (not applied to the vertices that were counted)"),
-                          "the area primitive must receive exactly the vertices of the face", note=f"{k}-gons -> {au.call_tail(c)}/{ar}")
-    if n < 2:
-        ctx.fail("C07-A1", site, f"face_area: dispatch on the number of vertices to the triangle / quad primitives not found ({n} branch(es) recognised)",
-                 "triangles and quads are measured by primitives of matching arity")
+        coll, k = cf
+        counted = coll
+        n += 1
+        ar = _geom_arity(ctx, c)
+        same_coll = F.key(c.args[0].value, c) == F.key(coll, c) or au.same(b.resolve(c.args[0].value, at=c), b.resolve(coll, at=c))
+        ctx.check(ar == k and same_coll, "C07-A1", ctx.site(mod, fn, c),
+                  f"face_area: faces with {k} vertices are sent to `{au.call_tail(c)}` which takes {ar} points"
+                  + ("" if same_coll else " (not applied to the vertices that were counted)"),
+                  "the area primitive must receive exactly the vertices of the face", note=f"{k}-gons -> {au.call_tail(c)}/{ar}")
+    if n == 0:
+        ctx.undecided("C07-A1", site, "face_area: dispatch on the number of vertices to the triangle / quad primitives not recognised",
+                      "triangles and quads are measured by primitives of matching arity")
     # all vertices of the face are collected
-    pts = [st for st in au.stmts(fn.body) if isinstance(st, ast.Assign) and isinstance(st.value, ast.ListComp)]
-    ok = False
-    for st in pts:
-        g = st.value.generators
-        if len(g) == 1 and not g[0].ifs and isinstance(g[0].iter, ast.Subscript) and au.chain(g[0].iter.value) \
-                and au.chain(g[0].iter.value)[-1] == "faces" and not isinstance(g[0].iter.slice, ast.Slice) \
-                and isinstance(_vertex_of(st.value.elt), ast.Name) and isinstance(g[0].target, ast.Name) \
-                and _vertex_of(st.value.elt).id == g[0].target.id:
-            ok = True
-    ctx.check(ok, "C07-A1", site, "face_area: the point list is not `[mesh.vertices[u] for u in mesh.faces[T]]` (all vertices, unfiltered)",
-              "every vertex of the face contributes to its area")
+    if counted is not None:
+        r = counted
+        at = None
+        for _ in range(3):
+            if isinstance(r, ast.Name):
+                d = b.reaching(r.id, c)
+                if d is None:
+                    break
+                r = d
+        filt = isinstance(r, (ast.ListComp, ast.GeneratorExp)) and any(g.ifs for g in r.generators)
+        whole = F.points_of(counted, c) is not None or (isinstance(r, (ast.Name, ast.Attribute, ast.Subscript)))
+        if filt:
+            ctx.fail("C07-A1", site, "face_area: the points of a face are collected through a filter", "every vertex of the face contributes to its area")
+        elif whole:
+            ctx.ok("C07-A1", site, "face_area: all the vertices of the face are collected")
+        else:
+            ctx.undecided("C07-A1", site, "face_area: the list of the points of a face not recognised", "")
     # polygon fan
-    fans = [st for st in au.stmts(fn.body) if isinstance(st, ast.AugAssign) and isinstance(st.value, ast.Call)
-            and au.call_tail(st.value) == "triangle_area"]
+    fans = [c for c in au.calls(V) if au.call_tail(c) == "triangle_area" and len(c.args) == 3 and not any(isinstance(a, ast.Starred) for a in c.args)]
     if len(fans) != 1:
-        ctx.fail("C07-A1", site, "face_area: polygon fan `area[T] += triangle_area(p[i], p[i+1], centre)` not found", "")
+        ctx.undecided("C07-A1", site, "face_area: polygon fan `triangle_area(p[i], p[i+1], centre)` not recognised", "")
     else:
-        st = fans[0]
-        lps = [a for a in au.ancestors(st) if isinstance(a, ast.For)]
-        lp = lps[0] if lps else None
-        iv = lp.target.id if lp is not None and isinstance(lp.target, ast.Name) else None
-        trip = b.resolve(lp.iter.args[0], at=lp) if lp is not None and isinstance(lp.iter, ast.Call) and au.call_tail(lp.iter) == "range" and len(lp.iter.args) == 1 else None
-        offs, centre, colls = [], 0, set()
-        for a in st.value.args:
-            e = b.resolve(a, at=st, keep=(iv,))
-            if isinstance(e, ast.Subscript) and not isinstance(e.slice, ast.Slice):
-                idx = e.slice
-                o = None
-                if isinstance(idx, ast.BinOp) and isinstance(idx.op, ast.Mod):
-                    if trip is not None and au.same(b.resolve(idx.right, at=st), trip):
-                        o = sym.mod_offset(ast.BinOp(left=idx.left, op=ast.Mod(), right=ast.Name(id="_n", ctx=ast.Load())), iv, "_n")
-                else:
-                    o = sym.mod_offset(idx, iv)
-                offs.append(o)
-                colls.add(au.norm(e.value))
-            elif isinstance(e, ast.BinOp) and isinstance(e.op, ast.Div) and _sum_over(e.left) is not None:
-                centre += 1
-        trip_ok = trip is not None and isinstance(trip, ast.Call) and au.call_tail(trip) == "len" and len(colls) == 1 \
-            and au.norm(trip.args[0]) in colls
-        ok = sorted(offs, key=lambda x: (x is None, x)) in ([0, 1], [-1, 0]) and centre == 1 and trip_ok \
-            and isinstance(st.op, ast.Add) and lp is not None and not au.guards(st, stop=lp)
-        ctx.check(ok, "C07-A1", ctx.site(mod, fn, st),
-                  f"face_area: the polygon fan uses point offsets {offs} modulo the loop length with {centre} centre argument(s) "
-                  f"(expected consecutive points i, i+1 modulo the number of points and the barycentre, added for every i)",
-                  "the fan must cover every side of the polygon exactly once", note="fan over consecutive sides, all i")
+        c = fans[0]
+        fsite = ctx.site(mod, fn, c)
+        st = au.enclosing_stmt(c)
+        comp = next((a for a in au.ancestors(c) if isinstance(a, (ast.GeneratorExp, ast.ListComp))), None)
+        lp = next((a for a in au.ancestors(c) if isinstance(a, ast.For)), None)
+        L, accumulates = None, None
+        if comp is not None and len(comp.generators) == 1 and not comp.generators[0].ifs and any(comp is x for x in au.walk(st)):
+            g = comp.generators[0]
+            L = he_seq.LoopCtx(F, g.target, g.iter, st)
+            summed = isinstance(au.parent(comp), ast.Call) and au.call_tail(au.parent(comp)) == "sum"
+            accumulates = summed
+        elif lp is not None and any(st is x for x in au.stmts(lp.body)):
+            L = he_seq.LoopCtx(F, lp.target, lp.iter, lp)
+            inc = au.increment(st)
+            accumulates = inc is not None and inc[1] == 1 and not au.guards(st, stop=lp) and inc[2] is c
+            if inc is None and isinstance(st, ast.Assign) and st.value is c and isinstance(st.targets[0], ast.Subscript):
+                accumulates = False
+        if L is None or L.seq is None or L.seq.base is None or accumulates is None:
+            ctx.undecided("C07-A1", fsite, "face_area: the iteration of the polygon fan not recognised", "")
+        else:
+            ds = [L.desc(a, c) for a in c.args]
+            pts = [d for d in ds if d[0] == "at" and d[1] == L.seq.base]
+            centre = [a for a, d in zip(c.args, ds) if d[0] == "expr"]
+            cen_ok = False
+            if len(centre) == 1:
+                e = b.resolve(centre[0], at=st)
+                if isinstance(e, ast.BinOp) and isinstance(e.op, ast.Div) and _sum_over(e.left) not in (None, False):
+                    cen_ok = F.key(_sum_over(e.left), st) == L.seq.base
+            if len(pts) != 2 or len(centre) != 1:
+                ctx.undecided("C07-A1", fsite, "face_area: the two consecutive points and the centre of a fan triangle not recognised", "")
+            else:
+                sh = sorted((d[2], d[3]) for d in pts)
+                consecutive = sh[1][0] - sh[0][0] == 1
+                full = he_seq.full(L.seq)
+                wraps = (sh[1][0] <= 0 or sh[1][1]) and (sh[0][0] >= 0 or sh[0][1])
+                problems = []
+                if full is None:
+                    ctx.undecided("C07-A1", fsite, "face_area: the number of triangles of the polygon fan is not known", "")
+                    full = True
+                    problems = None
+                if problems is not None and not consecutive:
+                    problems.append(f"the fan triangles join the points at offsets {sh[0][0]:+d} and {sh[1][0]:+d} of the running index (expected two consecutive points)")
+                if problems is not None and not full:
+                    problems.append(f"the fan visits {L.seq.length} sides".replace("N:" + L.seq.base, "n") + " of the n sides of the polygon")
+                elif problems is not None and not wraps:
+                    problems.append("the side closing the polygon (last point -> first point) is not visited: the index is not taken modulo the number of points")
+                if problems is not None and not accumulates:
+                    problems.append("the fan triangles are not added up")
+                if problems is not None and not cen_ok:
+                    problems.append("the apex of the fan is not the barycentre of the points of the face")
+                if problems is not None:
+                  ctx.check(not problems, "C07-A1", fsite, "face_area: " + "; ".join(problems),
+                          "the fan must cover every side of the polygon exactly once", note="fan over consecutive sides, all i")
     # cell_volume
     mod = "attributes.attr_cells"
+    m = ctx.repo.module(mod)
     fn = ctx.repo.func(mod, "cell_volume")
     site = ctx.site(mod, fn)
-    b = sym.Bindings(fn)
-    stores = [st for st in au.stmts(fn.body) if isinstance(st, ast.Assign) and isinstance(st.targets[0], ast.Subscript)
-              and any(au.call_tail(c) == "det_3x3" for c in au.calls(st.value))]
+    V = H.fview(ctx, mod, fn)
+    F = he_seq.Forms(V, ctx.repo, m.name)
+    b = F.b
+    dets = [c for c in au.calls(V) if _det_rows(c) is not None]
+    stores = [st for st in au.stmts(V.body) if isinstance(st, ast.Assign) and len(st.targets) == 1 and isinstance(st.targets[0], ast.Subscript)
+              and any(d is x for d in dets for x in au.walk(b.resolve(st.value, at=st)) ) or
+              (isinstance(st, ast.Assign) and len(st.targets) == 1 and isinstance(st.targets[0], ast.Subscript)
+               and any(_det_rows(x) is not None for x in ast.walk(b.resolve(st.value, at=st)) if isinstance(x, ast.Call)))]
     if len(stores) != 1:
-        ctx.fail("C07-A1", site, "cell_volume: `volume[c] = abs(det_3x3(...))/6` not found", "")
+        ctx.undecided("C07-A1", site, "cell_volume: store of |det_3x3(...)|/6 per cell not recognised", "")
         return
     st = stores[0]
     lp = [a for a in au.ancestors(st) if isinstance(a, ast.For)]
-    row = []
-    if lp and isinstance(lp[0].target, ast.Tuple) and len(lp[0].target.elts) == 2 and isinstance(lp[0].target.elts[1], (ast.Tuple, ast.List)):
-        row = [x.id for x in lp[0].target.elts[1].elts if isinstance(x, ast.Name)]
-    v = st.value
-    det = [c for c in au.calls(v) if au.call_tail(c) == "det_3x3"][0]
-    shape = isinstance(v, ast.BinOp) and isinstance(v.op, ast.Div) and au.const(v.right) == 6 and isinstance(v.left, ast.Call) \
-        and au.call_tail(v.left) in ("abs", "fabs") and v.left.args and v.left.args[0] is det
-    edges = []
-    for a in det.args:
-        e = b.resolve(a, at=st, keep=tuple(row))
-        if isinstance(e, ast.BinOp) and isinstance(e.op, ast.Sub):
-            x, y = _vertex_of(e.left), _vertex_of(e.right)
-            edges.append((x.id if isinstance(x, ast.Name) else None, y.id if isinstance(y, ast.Name) else None))
-    ok = shape and len(edges) == 3 and len(row) == 4 and spans_simplex(edges, row)
-    ctx.check(ok, "C07-A1", ctx.site(mod, fn, st),
-              f"cell_volume: `{au.src(v)}` is not |det(three independent edge vectors of the tetrahedron)| / 6 (edges found: {edges})",
-              "the volume of a tetrahedron is a sixth of the absolute determinant of three edges sharing a vertex",
-              note="tet volume = |det(A-D, B-D, C-D)|/6")
-    gate = None
-    for s in fn.body:
-        if s is (lp[-1] if lp else None):
-            break
-        if isinstance(s, ast.If) and any(au.call_tail(c) == "is_tetrahedral" for c in au.calls(s.test)) and flow.always_terminates(s.body):
-            gate = s
-    ctx.check(gate is not None, "C07-A1", site, "cell_volume: the tetrahedral gate does not precede the per-cell loop",
+    L = he_seq.LoopCtx(F, lp[-1].target, lp[-1].iter, lp[-1]) if lp else None
+    rows = [r for r in (L.rows.values() if L else [])]
+    row = rows[0] if rows and None not in rows[0] else []
+    v = _specialise_defaults(b.resolve(st.value, at=st, keep=tuple(row)), V)
+    form = _abs_det(v)
+    if form is None or len(row) != 4:
+        ctx.undecided("C07-A1", ctx.site(mod, fn, st), "cell_volume: the stored value is not read as a constant multiple of |det_3x3| of a 4-vertex cell", "")
+    else:
+        coef, det, has_abs = form
+        edges = []
+        for a in _det_rows(det):
+            e = b.resolve(a, at=st, keep=tuple(row))
+            if isinstance(e, ast.BinOp) and isinstance(e.op, ast.Sub):
+                x, y = _vertex_of(e.left), _vertex_of(e.right)
+                edges.append((x.id if isinstance(x, ast.Name) else None, y.id if isinstance(y, ast.Name) else None))
+        if len(edges) != 3 or any(None in e for e in edges):
+            ctx.undecided("C07-A1", ctx.site(mod, fn, st), "cell_volume: the three edge vectors of the determinant not recognised", "")
+        else:
+            problems = []
+            if coef != Fraction(1, 6):
+                problems.append(f"the determinant is multiplied by {coef} instead of 1/6")
+            if not has_abs:
+                problems.append("the determinant is not taken in absolute value")
+            if not spans_simplex(edges, row):
+                problems.append(f"the edge vectors {edges} are not three independent edges of the tetrahedron")
+            ctx.check(not problems, "C07-A1", ctx.site(mod, fn, st), "cell_volume: " + "; ".join(problems),
+                      "the volume of a tetrahedron is a sixth of the absolute determinant of three edges sharing a vertex",
+                      note="tet volume = |det(A-D, B-D, C-D)|/6")
+    gate = any(isinstance(t, ast.Call) and au.call_tail(t) == "is_tetrahedral" and pol for t, pol in H.facts(st, toplevel=True))
+    ctx.check(gate, "C07-A1", site, "cell_volume: the per-cell loop is not guarded by is_tetrahedral()",
               "cells with more than four vertices cannot be unpacked / measured with the tetrahedron formula")
 
 
 # ----------------------------------------------------------------------- C07-X1
 def _strip(e):
-    """remove Vec(...) / Vec.normalized(...) wrappers"""
-    while isinstance(e, ast.Call) and len(e.args) == 1 and au.call_tail(e) in ("Vec", "normalized"):
+    """remove Vec(...) / Vec.normalized(...) / np.asarray(...) wrappers"""
+    while isinstance(e, ast.Call) and len(e.args) == 1 and au.call_tail(e) in ("Vec", "normalized", "array", "asarray"):
         e = e.args[0]
     return e
 
@@ -930,7 +1578,6 @@ def spans_simplex(edges, points):
     return abs(_det_int(rows)) == 1
 
 
-
 def _single_return(fn):
     rets = [s for s in au.stmts(fn.body) if isinstance(s, ast.Return) and s.value is not None]
     return rets[0] if len(rets) == 1 else None
@@ -943,6 +1590,12 @@ def _comp_atom(e):
             return f"{e.value.id}{i}"
         if isinstance(i, tuple) and all(isinstance(x, int) for x in i):
             return e.value.id + "".join(map(str, i))
+    if isinstance(e, ast.Subscript) and isinstance(e.value, ast.Subscript) and isinstance(e.value.value, ast.Name):
+        i, j = au.literal(e.value.slice), au.literal(e.slice)
+        if isinstance(i, int) and isinstance(j, int):
+            return f"{e.value.value.id}{i}{j}"
+    if isinstance(e, ast.Attribute) and isinstance(e.value, ast.Name) and e.attr in ("x", "y", "z", "real", "imag"):
+        return f"{e.value.id}{ {'x': 0, 'y': 1, 'z': 2, 'real': 0, 'imag': 1}[e.attr] }"
     return None
 
 
@@ -953,185 +1606,222 @@ def _find_call(e, tails):
     return None
 
 
+def _opaque(p):
+    return any(a.startswith("⟨") for a in p.atoms())
+
+
+def _specialisations(e, limit=16):
+    """the expression under every truth assignment of the tests of its conditional sub-expressions"""
+    tests = []
+    for n in ast.walk(e):
+        if isinstance(n, ast.IfExp) and not any(au.same(n.test, t) for t in tests):
+            tests.append(n.test)
+    if not tests:
+        return [e]
+    if 2 ** len(tests) > limit:
+        return None
+    import itertools as _it
+    out = []
+    for vals in _it.product((True, False), repeat=len(tests)):
+        class T(ast.NodeTransformer):
+            def visit_IfExp(self, n):
+                for t, v in zip(tests, vals):
+                    if au.same(n.test, t):
+                        return self.visit(n.body if v else n.orelse)
+                return self.generic_visit(n)
+        out.append(T().visit(sym.clone(e)))
+    return out
+
+
+X1_ATOMS = ("cross", "dot", "norm", "distance", "sign", "sign0", "det_2x2", "det_3x3", "triangle_area", "face_basis", "check_argument")
+
+
 def x1_primitives(ctx):
     R = "C07-X1"
     G = GEOM
+    gm = ctx.repo.module(G)
 
     def fn_site(name):
         fn = ctx.repo.func(G, name)
-        return fn, ctx.site(G, fn), sym.Bindings(fn)
+        V = he_norm.view(ctx.repo, gm.name, fn, inline_public=True, stop=X1_ATOMS)
+        return fn, ctx.site(G, fn), V, he_norm.return_expr(V)
+
+    def verdict(ok, site, construct, what, note):
+        """ok: True / False (recognised and contradicted) / None (shape not recognised)"""
+        if ok is None:
+            ctx.undecided(R, site, construct.split(":")[0] + ": the closed form of the primitive could not be read", what)
+        else:
+            ctx.check(ok, R, site, construct, what, note=note)
 
     # cross
-    fn, site, b = fn_site("cross")
-    ret = _single_return(fn)
+    fn, site, V, e = fn_site("cross")
     ps = au.params(fn)
-    ok = False
-    if ret is not None and isinstance(ret.value, ast.Call) and len(ret.value.args) == 3 and len(ps) == 2:
+    ok = None
+    comps = None
+    x = _strip(e) if e is not None else None
+    if isinstance(e, ast.Call) and len(e.args) == 3:
+        comps = e.args
+    elif isinstance(x, (ast.Tuple, ast.List)) and len(x.elts) == 3:
+        comps = x.elts
+    if comps is not None and len(ps) == 2:
         A, B = ps
         at = lambda i, j: Poly.atom(f"{A}{i}") * Poly.atom(f"{B}{j}")
         want = [at(1, 2) - at(2, 1), at(2, 0) - at(0, 2), at(0, 1) - at(1, 0)]
-        got = [sym.to_poly(x, atom_of=_comp_atom) for x in ret.value.args]
-        ok = got == want
-    ctx.check(ok, R, site, "cross: components are not (A1*B2-A2*B1, A2*B0-A0*B2, A0*B1-A1*B0)",
-              "every normal, area and angle of the library goes through this cross product", note="cross product polynomial identity")
+        got = [sym.to_poly(c, atom_of=_comp_atom) for c in comps]
+        ok = None if any(_opaque(g) for g in got) else got == want
+    verdict(ok, site, "cross: components are not (A1*B2-A2*B1, A2*B0-A0*B2, A0*B1-A1*B0)",
+            "every normal, area and angle of the library goes through this cross product", "cross product polynomial identity")
     # det_3x3 : Sarrus == Leibniz
-    fn, site, b = fn_site("det_3x3")
-    ret = _single_return(fn)
-    ok = False
+    fn, site, V, e = fn_site("det_3x3")
+    ok = None
+    cands = [e] if e is not None else []
+    ret = _single_return(V)
     if ret is not None:
-        e = b.resolve(ret.value, at=ret)
-        names = {n.value.id for n in ast.walk(e) if isinstance(n, ast.Subscript) and isinstance(n.value, ast.Name)}
-        if len(names) == 1:
-            m = names.pop()
-            a = lambda i, j: Poly.atom(f"{m}{i}{j}")
-            want = Poly()
-            for perm, sgn in (((0, 1, 2), 1), ((1, 2, 0), 1), ((2, 0, 1), 1), ((0, 2, 1), -1), ((1, 0, 2), -1), ((2, 1, 0), -1)):
-                want = want + (a(0, perm[0]) * a(1, perm[1]) * a(2, perm[2])).scale(sgn)
-            ok = sym.to_poly(e, atom_of=_comp_atom) == want
-    ctx.check(ok, R, site, "det_3x3: the returned expression is not the 3x3 determinant polynomial (rule of Sarrus)",
-              "cell volumes are a sixth of this determinant", note="Sarrus = Leibniz determinant")
+        cands.append(sym.Bindings(V).resolve(ret.value, at=ret))
+    for cand in cands:
+        names = {n.value.id for n in ast.walk(cand) if isinstance(n, ast.Subscript) and isinstance(n.value, ast.Name)}
+        if len(names) != 1:
+            continue
+        mname = next(iter(names))
+        a = lambda i, j: Poly.atom(f"{mname}{i}{j}")
+        want = Poly()
+        for perm, sgn in (((0, 1, 2), 1), ((1, 2, 0), 1), ((2, 0, 1), 1), ((0, 2, 1), -1), ((1, 0, 2), -1), ((2, 1, 0), -1)):
+            want = want + (a(0, perm[0]) * a(1, perm[1]) * a(2, perm[2])).scale(sgn)
+        got = sym.to_poly(cand, atom_of=_comp_atom)
+        if not _opaque(got):
+            ok = got == want
+            break
+    verdict(ok, site, "det_3x3: the returned expression is not the 3x3 determinant polynomial (rule of Sarrus)",
+            "cell volumes are a sixth of this determinant", "Sarrus = Leibniz determinant")
     # det_2x2
-    fn, site, b = fn_site("det_2x2")
-    ret = _single_return(fn)
+    fn, site, V, e = fn_site("det_2x2")
     ps = au.params(fn)
-    comp = {}
-    shape_ok = True
-    for st in fn.body:
-        if isinstance(st, ast.If):
-            for branch in (st.body, st.orelse):
-                for s in branch:
-                    if isinstance(s, ast.Assign) and isinstance(s.targets[0], ast.Tuple) and isinstance(s.value, ast.Tuple) \
-                            and len(s.targets[0].elts) == len(s.value.elts) == 2:
-                        for t, v in zip(s.targets[0].elts, s.value.elts):
-                            c = None
-                            if isinstance(v, ast.Attribute) and isinstance(v.value, ast.Name) and v.attr in ("real", "imag"):
-                                c = (v.value.id, 0 if v.attr == "real" else 1)
-                            elif isinstance(v, ast.Subscript) and isinstance(v.value, ast.Name) and au.const(v.slice) in (0, 1):
-                                c = (v.value.id, au.const(v.slice))
-                            if c is None or comp.setdefault(t.id, c) != c:
-                                shape_ok = False
-    ok = False
-    if ret is not None and shape_ok and len(ps) == 2 and len(comp) == 4:
-        got = sym.to_poly(ret.value, atom_of=lambda e: f"{comp[e.id][0]}{comp[e.id][1]}" if isinstance(e, ast.Name) and e.id in comp else None)
+    ok = None
+    specs = _specialisations(e) if e is not None else None
+    if specs and len(ps) == 2:
         A, B = ps
-        ok = got == Poly.atom(f"{A}0") * Poly.atom(f"{B}1") - Poly.atom(f"{A}1") * Poly.atom(f"{B}0")
-    ctx.check(ok, R, site, "det_2x2: the result is not A.x*B.y - A.y*B.x with the same component naming in the complex and array branches",
-              "2D areas / line intersections use this determinant for both complex and array inputs", note="det_2x2, both input forms")
+        want = Poly.atom(f"{A}0") * Poly.atom(f"{B}1") - Poly.atom(f"{A}1") * Poly.atom(f"{B}0")
+        got = [sym.to_poly(_strip(x), atom_of=_comp_atom) for x in specs]
+        ok = None if any(_opaque(g) for g in got) else all(g == want for g in got)
+    verdict(ok, site, "det_2x2: the result is not A.x*B.y - A.y*B.x with the same component naming in the complex and array branches",
+            "2D areas / line intersections use this determinant for both complex and array inputs", "det_2x2, both input forms")
     # triangle_area
-    fn, site, b = fn_site("triangle_area")
-    ret = _single_return(fn)
-    ok = False
-    if ret is not None and isinstance(ret.value, ast.BinOp) and isinstance(ret.value.op, ast.Div) and au.const(ret.value.right) == 2:
-        c = _find_call(ret.value.left, ("cross",))
-        if c is not None and len(c.args) == 2 and _find_call(ret.value.left, ("norm",)) is not None:
-            d = [_diff(b.resolve(x, at=ret)) for x in c.args]
-            ok = None not in d and spans_simplex(d, au.params(fn))
-    ctx.check(ok, R, site, "triangle_area: not |cross(e1, e2)| / 2 with e1, e2 two different edge vectors of the triangle",
-              "area of a triangle is half the norm of the cross product of two edges sharing a vertex", note="triangle area")
+    fn, site, V, e = fn_site("triangle_area")
+    ok = None
+    if e is not None:
+        coef, num, den = H.factors(e)
+        c = _find_call(e, ("cross",))
+        if c is not None and len(c.args) == 2 and len(num) == 1 and not den and _find_call(num[0], ("norm",)) is not None:
+            d = [_diff(x) for x in c.args]
+            if None not in d:
+                ok = coef == Fraction(1, 2) and spans_simplex(d, au.params(fn))
+    verdict(ok, site, "triangle_area: not |cross(e1, e2)| / 2 with e1, e2 two different edge vectors of the triangle",
+            "area of a triangle is half the norm of the cross product of two edges sharing a vertex", "triangle area")
     # quad_area : mean of the two diagonal splits
-    fn, site, b = fn_site("quad_area")
-    ret = _single_return(fn)
-    ok = False
-    if ret is not None and isinstance(ret.value, ast.BinOp) and isinstance(ret.value.op, ast.Div) and au.const(ret.value.right) == 2:
-        terms = H.additive_terms(ret.value.left)
+    fn, site, V, e = fn_site("quad_area")
+    ok = None
+    qc, qn, qd = H.factors(e) if e is not None else (None, [], [])
+    if e is not None and len(qn) == 1 and not qd:
+        terms = H.additive_terms(qn[0])
         sets = []
         for s, t in terms:
             if s == 1 and isinstance(t, ast.Call) and au.call_tail(t) == "triangle_area" and all(isinstance(a, ast.Name) for a in t.args):
                 sets.append(frozenset(a.id for a in t.args))
         ps = au.params(fn)
         import itertools as _it
-        ok = len(terms) == 4 and len(sets) == 4 and set(sets) == {frozenset(c) for c in _it.combinations(ps, 3)} and len(ps) == 4
-    ctx.check(ok, R, site, "quad_area: not half the sum of the four triangles (both diagonal splits) of the quad",
-              "each diagonal split covers the quad once; the mean of the two splits needs all four triangles", note="quad area = mean of both splits")
+        if len(sets) == len(terms) and len(ps) == 4:
+            ok = qc == Fraction(1, 2) and len(terms) == 4 and set(sets) == {frozenset(c) for c in _it.combinations(ps, 3)}
+    verdict(ok, site, "quad_area: not half the sum of the four triangles (both diagonal splits) of the quad",
+            "each diagonal split covers the quad once; the mean of the two splits needs all four triangles", "quad area = mean of both splits")
     # aspect_ratio
-    fn, site, b = fn_site("aspect_ratio")
-    ret = _single_return(fn)
-    ok = False
-    if ret is not None:
-        e = b.resolve(ret.value, at=ret)
-        if isinstance(e, ast.BinOp) and isinstance(e.op, ast.Div):
-            dist = {}
+    fn, site, V, e = fn_site("aspect_ratio")
+    ok = None
+    if isinstance(e, ast.BinOp) and isinstance(e.op, ast.Div):
+        dist = {}
 
-            def atom(x):
-                if isinstance(x, ast.Call) and au.call_tail(x) == "distance" and len(x.args) >= 2 and all(isinstance(a, ast.Name) for a in x.args[:2]):
-                    key = frozenset(a.id for a in x.args[:2])
-                    return dist.setdefault(key, f"d{len(dist)}")
-                return None
-            num, den = sym.to_poly(e.left, atom_of=atom), sym.to_poly(e.right, atom_of=atom)
-            ps = au.params(fn)
-            if len(dist) == 3 and all(len(k) == 2 and k <= set(ps) for k in dist):
-                x, y, z = (Poly.atom(a) for a in sorted(dist.values()))
-                ok = num == x * y * z and den == (y + z - x) * (x + z - y) * (x + y - z)
-    ctx.check(ok, R, site, "aspect_ratio: not abc / ((b+c-a)(a+c-b)(a+b-c)) over the three side lengths",
-              "circumradius / (2 inradius) of a triangle with sides a, b, c", note="aspect ratio polynomial identity")
+        def atom(x):
+            if isinstance(x, ast.Call) and au.call_tail(x) == "distance" and len(x.args) >= 2 and all(isinstance(a, ast.Name) for a in x.args[:2]):
+                key = frozenset(a.id for a in x.args[:2])
+                return dist.setdefault(key, f"d{len(dist)}")
+            return None
+        num, den = sym.to_poly(e.left, atom_of=atom), sym.to_poly(e.right, atom_of=atom)
+        ps = au.params(fn)
+        if len(dist) == 3 and all(len(k) == 2 and k <= set(ps) for k in dist) and not _opaque(num) and not _opaque(den):
+            x, y, z = (Poly.atom(a) for a in sorted(dist.values()))
+            ok = num == x * y * z and den == (y + z - x) * (x + z - y) * (x + y - z)
+    verdict(ok, site, "aspect_ratio: not abc / ((b+c-a)(a+c-b)(a+b-c)) over the three side lengths",
+            "circumradius / (2 inradius) of a triangle with sides a, b, c", "aspect ratio polynomial identity")
     # angle primitives: both vectors leave the central (second) point; atan2(sine, cosine)
     for name in ("angle_3pts", "cotan", "signed_angle_3pts"):
-        fn, site, b = fn_site(name)
-        ret = _single_return(fn)
+        fn, site, V, e = fn_site(name)
         ps = au.params(fn)
-        ok = False
+        ok = None
         detail = ""
-        if ret is not None and len(ps) >= 3:
-            e = b.resolve(ret.value, at=ret)
+        if e is not None and len(ps) >= 3:
+            at2 = _find_call(e, ("atan2", "arctan2"))
+            scope = at2 if (at2 is not None and name != "cotan") else e
+            c = _find_call(scope, ("cross",))
+            d = _find_call(scope, ("dot",))
+            order_ok = None
+            if name in ("angle_3pts", "signed_angle_3pts") and at2 is not None and len(at2.args) == 2:
+                order_ok = _find_call(at2.args[0], ("cross",)) is not None and _find_call(at2.args[1], ("dot",)) is not None \
+                    and _find_call(at2.args[0], ("dot",)) is None
+            if name == "cotan" and isinstance(e, ast.BinOp) and isinstance(e.op, ast.Div):
+                order_ok = _find_call(e.left, ("dot",)) is not None and _find_call(e.left, ("cross",)) is None \
+                    and _find_call(e.right, ("cross",)) is not None and _find_call(e.right, ("norm",)) is not None
             vecs = None
-            if name == "signed_angle_3pts":
-                if isinstance(e, ast.Call) and len(e.args) >= 2:
-                    vecs = [_diff(e.args[0]), _diff(e.args[1])]
-                    order_ok = True
-            else:
-                c = _find_call(e, ("cross",))
-                d = _find_call(e, ("dot",))
-                order_ok = False
-                if name == "angle_3pts" and isinstance(e, ast.Call) and au.call_tail(e) == "atan2" and len(e.args) == 2:
-                    order_ok = _find_call(e.args[0], ("cross",)) is not None and _find_call(e.args[1], ("dot",)) is not None \
-                        and _find_call(e.args[0], ("dot",)) is None
-                if name == "cotan" and isinstance(e, ast.BinOp) and isinstance(e.op, ast.Div):
-                    order_ok = _find_call(e.left, ("dot",)) is not None and _find_call(e.left, ("cross",)) is None \
-                        and _find_call(e.right, ("cross",)) is not None and _find_call(e.right, ("norm",)) is not None
-                if c is not None and d is not None and len(c.args) == 2 and len(d.args) == 2:
-                    vecs = [_diff(c.args[0]), _diff(c.args[1])]
-                    dv = [_diff(d.args[0]), _diff(d.args[1])]
-                    if None in dv or None in vecs or set(dv) != set(vecs):
-                        vecs = None
-            if vecs and None not in vecs:
+            if c is not None and d is not None and len(c.args) == 2 and len(d.args) == 2:
+                vecs = [_diff(c.args[0]), _diff(c.args[1])]
+                dv = [_diff(d.args[0]), _diff(d.args[1])]
+                if None in dv or None in vecs:
+                    vecs = None
+                elif set(dv) != set(vecs):
+                    ok, detail = False, f" (sine from {vecs}, cosine from {dv})"
+            if vecs and ok is None and order_ok is not None:
                 away = vecs[0][1] == vecs[1][1] == ps[1] and {vecs[0][0], vecs[1][0]} == {ps[0], ps[2]}
                 towards = vecs[0][0] == vecs[1][0] == ps[1] and {vecs[0][1], vecs[1][1]} == {ps[0], ps[2]}
                 ok = order_ok and (away or towards)    # negating both vectors changes neither sine nor cosine
                 detail = f" (vectors {vecs})"
-        ctx.check(ok, R, site,
-                  f"{name}: not built from the two vectors leaving the central point `{ps[1] if len(ps) > 1 else '?'}`"
-                  f" with sine from the cross product and cosine from the dot product{detail}",
-                  "corner angles and cotangents are defined at the middle argument", note=f"{name}: angle at the second argument")
+        verdict(ok, site,
+                f"{name}: not built from the two vectors leaving the central point `{ps[1] if len(ps) > 1 else '?'}`"
+                f" with sine from the cross product and cosine from the dot product{detail}",
+                "corner angles and cotangents are defined at the middle argument", f"{name}: angle at the second argument")
     for name in ("signed_angle_2vec3D", "angle_2vec3D"):
-        fn, site, b = fn_site(name)
-        ret = _single_return(fn)
-        ok = False
-        if ret is not None:
-            e = b.resolve(ret.value, at=ret)
-            at2 = _find_call(e, ("atan2",))
+        fn, site, V, e = fn_site(name)
+        ok = None
+        if e is not None:
+            at2 = _find_call(e, ("atan2", "arctan2"))
             if at2 is not None and len(at2.args) == 2:
-                ok = _find_call(at2.args[0], ("cross",)) is not None and _find_call(at2.args[0], ("dot",)) is None \
-                    and _find_call(at2.args[1], ("dot",)) is not None and _find_call(at2.args[1], ("cross",)) is None
-                c, d = _find_call(at2.args[0], ("cross",)), _find_call(at2.args[1], ("dot",))
+                c0, d0 = _find_call(at2.args[0], ("cross",)), _find_call(at2.args[0], ("dot",))
+                c1, d1 = _find_call(at2.args[1], ("cross",)), _find_call(at2.args[1], ("dot",))
                 ps = au.params(fn)
-                ok = ok and c is not None and d is not None and [au.src(a) for a in c.args] == ps[:2] and {au.src(a) for a in d.args} == set(ps[:2])
-        ctx.check(ok, R, site, f"{name}: not atan2(|V1 x V2|, V1 . V2)", "angle between two vectors", note=f"{name}: atan2(sine, cosine)")
+                if (c0 is not None or c1 is not None) and (d0 is not None or d1 is not None):
+                    ok = c0 is not None and d0 is None and d1 is not None and c1 is None
+                    if ok:
+                        ok = [au.src(_strip(a)) for a in c0.args] == ps[:2] and {au.src(_strip(a)) for a in d1.args} == set(ps[:2])
+        verdict(ok, site, f"{name}: not atan2(|V1 x V2|, V1 . V2)", "angle between two vectors", f"{name}: atan2(sine, cosine)")
     # face_basis right handed:  Z = X x (C - A),  Y = Z x X
-    fn, site, b = fn_site("face_basis")
+    fn = ctx.repo.func(G, "face_basis")
+    site = ctx.site(G, fn)
+    b = sym.Bindings(fn)
     ret = _single_return(fn)
-    ok = False
+    ok = None
     if ret is not None and isinstance(ret.value, ast.Tuple) and len(ret.value.elts) == 3 and all(isinstance(x, ast.Name) for x in ret.value.elts):
         X, Y, Z = (x.id for x in ret.value.elts)
         dX, dY, dZ = (b.reaching(n, ret) for n in (X, Y, Z))
         cz, cy = (_strip(dZ) if dZ is not None else None), (_strip(dY) if dY is not None else None)
-        if dX is not None and _diff(dX) and isinstance(cz, ast.Call) and au.call_tail(cz) == "cross" and isinstance(cy, ast.Call) and au.call_tail(cy) == "cross":
+        if dX is not None and _diff(dX) and isinstance(cz, ast.Call) and au.call_tail(cz) == "cross" and isinstance(cy, ast.Call) and au.call_tail(cy) == "cross" \
+                and len(cz.args) == 2 and len(cy.args) == 2:
             base = _diff(dX)
-            z_ok = au.src(cz.args[0]) == X and _diff(cz.args[1]) is not None and _diff(cz.args[1])[1] == base[1] and _diff(cz.args[1])[0] != base[0]
-            y_ok = [au.src(a) for a in cy.args] == [Z, X]
-            norm_ok = all(isinstance(d, ast.Call) and au.call_tail(d) == "normalized" for d in (dX, dY, dZ))
-            ok = z_ok and y_ok and norm_ok
-    ctx.check(ok, R, site, "face_basis: not the right-handed frame X = AB/|AB|, Z = X x AC normalised, Y = Z x X",
-              "local face coordinates (gradient, connections, normals) assume cross(X, Y) = Z = the face normal", note="right-handed face frame")
+            second = _diff(cz.args[1])
+            if au.src(cz.args[0]) == X and second is not None:
+                z_ok = second[1] == base[1] and second[0] != base[0]
+                y_ok = [au.src(a) for a in cy.args] == [Z, X]
+                norm_ok = all(isinstance(d, ast.Call) and au.call_tail(d) == "normalized" for d in (dX, dY, dZ))
+                if {au.src(a) for a in cy.args} == {Z, X}:
+                    ok = z_ok and y_ok and norm_ok
+    verdict(ok, site, "face_basis: not the right-handed frame X = AB/|AB|, Z = X x AC normalised, Y = Z x X",
+            "local face coordinates (gradient, connections, normals) assume cross(X, Y) = Z = the face normal", "right-handed face frame")
 
 
 # ----------------------------------------------------------------------- C07-E1
@@ -1140,11 +1830,12 @@ def edge_sides_rule(ctx, rule, targets):
     n = 0
     for modname, q in targets:
         fn = ctx.repo.func(modname, q)
-        sites = H.edge_side_sites(fn)
+        V = H.fview(ctx, modname, fn)
+        sites = H.edge_side_sites(V)
         if not sites:
-            ctx.fail(rule, ctx.site(modname, fn), f"{q}: visit of the faces on the two sides of each edge (direct_face(A,B) / direct_face(B,A) or "
-                     f"edge_to_faces) inside `for e,(A,B) in enumerate(mesh.edges)` not found",
-                     "a per-edge quantity built from the adjacent faces must look at both sides of the edge")
+            ctx.undecided(rule, ctx.site(modname, fn), f"{q}: visit of the faces on the two sides of each edge (direct_face(A,B) / direct_face(B,A) or "
+                          f"edge_to_faces) inside a loop over the edges not recognised",
+                          "a per-edge quantity built from the adjacent faces must look at both sides of the edge")
             continue
         for s in sites:
             n += 1
@@ -1164,13 +1855,12 @@ def e1_edge_sides(ctx):
         for q, fn in top_funcs(ctx, modname):
             if q == "cotan_weights":
                 continue
-            for s in H.edge_side_sites(fn):
+            for s in H.edge_side_sites(H.fview(ctx, modname, fn)):
                 n += 1
                 for node, text in s["problems"]:
                     ctx.fail("C07-E1", ctx.site(modname, fn, node), f"{q}: {text}", "every face adjacent to an edge contributes")
                 if not s["problems"]:
                     ctx.ok("C07-E1", ctx.site(modname, fn, s["loop"]), f"{q}: both sides visited")
-    ctx.require_count("C07-E1 two-sided edge loops", n, 1)
 
 
 # ----------------------------------------------------------------------- C07-E2
@@ -1186,7 +1876,8 @@ def f(mesh, normals):
 
 def threshold_rule(ctx, rule, modules):
     """comparisons of a dimensional expression with a non-zero literal, decided by the forward interpreter (c0708_geo): inside the
-    listed modules, and inside the functions of geometry.py they call, with the degrees of the actual arguments"""
+    listed modules (on the views of their functions: private helpers are looked through), and inside the functions of geometry.py they
+    call, with the degrees of the actual arguments"""
     from ..rules import c0708_geo as GEO
     tree = ast.parse(_E2_FIXTURE)
     for x in ast.walk(tree):
@@ -1196,15 +1887,20 @@ def threshold_rule(ctx, rule, modules):
     fx = GEO.Interp(world, "mouette." + GEOM, tree.body[0]).run().compares
     if len(fx) != 1 or fx[0][3] != 2:
         raise AnalysisError(f"{rule}: built-in fixture (|cross| < 1e-8, degree 2) not recognised by the matcher: {fx}")
-    seen = {}       # id(compare node) -> (module, fn, node, expr, lit, deg, via)
+    seen = {}       # key of compare node -> (module, fn, node, expr, lit, deg, via)
     mixed = []      # comparisons whose two sides are both dimensional
+    origin = {}
+
+    def nkey(cm, cfn, node):
+        return (cm, cfn.name, getattr(node, "lineno", 0), getattr(node, "col_offset", 0), au.src(node))
     for modname in modules:
         m = ctx.repo.module(modname)
         for q, fn in m.funcs.items():
             if "<locals>" in q:
                 continue
             world = GEO.World(ctx.repo)
-            it = GEO.Interp(world, m.name, fn).run()
+            V = H.fview(ctx, modname, fn, unroll=False)
+            it = GEO.Interp(world, m.name, V).run()
             found = [(m.name, fn, c, None) for c in it.compares]
             mixed += [(m.name, fn, c, None) for c in it.mixed]
             for (cm, cname), lst in world.calls.items():
@@ -1213,9 +1909,10 @@ def threshold_rule(ctx, rule, modules):
                     found += [(cm, cfn, c, q) for c in sub.compares]
                     mixed += [(cm, cfn, c, q) for c in sub.mixed]
             for cm, cfn, (node, expr, lit, deg), via in found:
-                prev = seen.get(id(node))
+                k = nkey(cm, cfn, node)
+                prev = seen.get(k)
                 if prev is None or (prev[5] == 0 and deg != 0):
-                    seen[id(node)] = (cm, cfn, node, expr, lit, deg, via)
+                    seen[k] = (cm, cfn, node, expr, lit, deg, via)
     n = 0
     for cm, cfn, node, expr, lit, deg, via in seen.values():
         n += 1
@@ -1228,11 +1925,11 @@ def threshold_rule(ctx, rule, modules):
                   note=f"{q}: `{au.src(node)}` is dimensionless")
     done = {}
     for cm, cfn, (node, l, dl, r, dr), via in mixed:
-        if done.get(id(node), True):          # a homogeneous reading never hides an inhomogeneous one of the same test
-            done[id(node)] = (dl == dr)
+        k = nkey(cm, cfn, node)
+        if done.get(k, True):          # a homogeneous reading never hides an inhomogeneous one of the same test
+            done[k] = (dl == dr)
             if dl != dr:
-                bad_mixed = (cm, cfn, node, l, dl, r, dr, via)
-                done[id(node)] = False
+                done[k] = False
                 ctx.fail(rule, ctx.site(cm, cfn, node),
                          f"{cfn.name}: `{au.src(node)}` compares `{au.src(l)}` (a length to the power {dl:g}) with `{au.src(r)}` "
                          f"(a length to the power {dr:g})" + (f" (reached from {via} with arguments built from mesh.vertices)" if via else ""),
@@ -1246,42 +1943,58 @@ def threshold_rule(ctx, rule, modules):
 
 def e2_absolute_thresholds(ctx):
     n = threshold_rule(ctx, "C07-E2", ALL_ATTR + [GEOM])
-    ctx.require_count("C07-E2 comparisons with a literal of known dimension", n, 1)
+    if n == 0:
+        ctx.ok("C07-E2", ctx.site(GEOM, "<module>"), "no comparison of a dimensional expression with a constant")
 
 
 # ----------------------------------------------------------------------- C07-Z1
-FRESH_CALLS = {"create_attribute", "ArrayAttribute", "Attribute", "zeros", "ones", "full", "empty", "dict", "list", "set", "zeros_like"}
-# Output attributes that the pinned code accumulates onto without resetting them (every caller in the repository passes a
-# freshly built attribute).  Frozen so that the rule stays silent on the pinned behaviour; reported as an observation.
+FRESH_CALLS = {"create_attribute", "ArrayAttribute", "Attribute", "zeros", "ones", "full", "empty", "dict", "list", "set", "zeros_like",
+               "ones_like", "full_like", "empty_like", "array", "copy", "deepcopy", "arange", "defaultdict", "Counter"}
+FETCH_CALLS = {"get_attribute", "as_array"}
+# Output attributes (module, function, position of the parameter) that the pinned code accumulates onto without resetting them
+# (every caller in the repository passes a freshly built attribute).  Frozen so that the rule stays silent on the pinned behaviour.
 Z1_PINNED_NO_RESET = {
-    ("attributes.interpolate", "interpolate_faces_to_vertices", "vattr"),
-    ("attributes.interpolate", "average_corners_to_vertices", "vattr"),
-    ("attributes.interpolate", "average_corners_to_faces", "fattr"),
+    ("attributes.interpolate", "interpolate_faces_to_vertices", 2),
+    ("attributes.interpolate", "average_corners_to_vertices", 2),
+    ("attributes.interpolate", "average_corners_to_faces", 2),
 }
 
 
-def _is_fresh(e):
+def _origin(e, params, depth=0):
+    """'fresh' | 'fetched' | ('param', name) | 'unknown' for the value an accumulator name is bound to"""
     if isinstance(e, ast.IfExp):
-        return _is_fresh(e.body) and _is_fresh(e.orelse)
+        a, c = _origin(e.body, params, depth + 1), _origin(e.orelse, params, depth + 1)
+        for worst in ("fetched",):
+            if worst in (a, c):
+                return worst
+        for x in (a, c):
+            if isinstance(x, tuple):
+                return x
+        return "unknown" if "unknown" in (a, c) else "fresh"
     if isinstance(e, ast.Call):
-        return au.call_tail(e) in FRESH_CALLS
-    if isinstance(e, (ast.List, ast.Dict, ast.Set, ast.ListComp, ast.DictComp)):
-        return True
+        t = au.call_tail(e)
+        if t in FETCH_CALLS:
+            return "fetched"
+        if t in FRESH_CALLS:
+            return "fresh"
+        return "unknown"
+    if isinstance(e, (ast.List, ast.Dict, ast.Set, ast.ListComp, ast.DictComp, ast.SetComp, ast.BinOp, ast.UnaryOp, ast.Tuple)):
+        return "fresh"
     if isinstance(e, ast.Constant) and isinstance(e.value, (int, float)):
-        return True
-    return False
+        return "fresh"
+    if isinstance(e, ast.Name) and e.id in params:
+        return ("param", e.id)
+    return "unknown"
 
 
 def _rmw(st):
     """(base name, key) if st reads and rewrites base[key] (+=, -=, base[k] = base[k] + ..)"""
-    if isinstance(st, ast.AugAssign) and isinstance(st.target, ast.Subscript) and isinstance(st.target.value, ast.Name) \
-            and isinstance(st.op, (ast.Add, ast.Sub)):
-        return st.target.value.id, st.target.slice
-    if isinstance(st, ast.Assign) and len(st.targets) == 1 and isinstance(st.targets[0], ast.Subscript) \
-            and isinstance(st.targets[0].value, ast.Name) and isinstance(st.value, ast.BinOp) and isinstance(st.value.op, (ast.Add, ast.Sub)):
-        key = au.norm(st.targets[0]).replace("Store()", "Load()")
-        if any(au.norm(x) == key for x in (st.value.left, st.value.right)):
-            return st.targets[0].value.id, st.targets[0].slice
+    inc = au.increment(st)
+    if inc is None:
+        return None
+    t = st.target if isinstance(st, ast.AugAssign) else st.targets[0]
+    if isinstance(t, ast.Subscript) and isinstance(t.value, ast.Name):
+        return t.value.id, t.slice
     return None
 
 
@@ -1292,52 +2005,409 @@ def _top_stmt(fn, node):
     return top
 
 
+def _reset_before(V, st, base, key):
+    """base.clear() / base.fill(0) at the top level before the accumulation, or base[key] = const earlier in the same loop body"""
+    top = _top_stmt(V, st)
+    for s in V.body:
+        if s is top:
+            break
+        if isinstance(s, ast.Expr) and isinstance(s.value, ast.Call) and au.call_tail(s.value) in ("clear", "fill") \
+                and isinstance(s.value.func, ast.Attribute) and au.src(s.value.func.value) == base:
+            return "cleared"
+    for a in au.ancestors(st):
+        if isinstance(a, ast.For):
+            for s in a.body:
+                if s.lineno >= st.lineno:
+                    break
+                if isinstance(s, ast.Assign) and len(s.targets) == 1 and isinstance(s.targets[0], ast.Subscript) \
+                        and au.src(s.targets[0].value) == base and au.increment(s) is None \
+                        and base not in au.names(s.value) and _top_stmt(a, st) is not s and au.same(s.targets[0].slice, key):
+                    return "reset per element"
+    return None
+
+
 def z1_reset_before_accumulate(ctx):
     n = 0
     for modname in ALL_ATTR:
         for q, fn in top_funcs(ctx, modname):
-            params = set(au.params(fn))
+            V = H.fview(ctx, modname, fn)
+            params = au.params(V)
             done = set()
-            for st in au.stmts(fn.body):
+            for st in au.stmts(V.body):
                 r = _rmw(st)
                 if not r or r[0] in done:
                     continue
                 base, key = r
                 done.add(base)
-                n += 1
                 site = ctx.site(modname, fn, st)
-                binds = [v for s in au.stmts(fn.body) for nm, v in sym.split_assign(s) if nm == base]
-                other = [s for s in au.stmts(fn.body) if sym.Bindings._assigns(s, base, deep=False) and not list(sym.split_assign(s))]
-                fresh = bool(binds) and base not in params and not other and all(_is_fresh(v) for v in binds)
-                # explicit reset dominating the accumulation: base.clear() at the top level before it, or base[key] = const in the
-                # same loop body before it
-                top = _top_stmt(fn, st)
-                cleared = False
-                for s in fn.body:
-                    if s is top:
-                        break
-                    if isinstance(s, ast.Expr) and isinstance(s.value, ast.Call) and au.call_tail(s.value) in ("clear", "fill") \
-                            and isinstance(s.value.func, ast.Attribute) and au.src(s.value.func.value) == base:
-                        cleared = True
-                per_elem = False
-                for a in au.ancestors(st):
-                    if isinstance(a, ast.For):
-                        for s in a.body:
-                            if s.lineno >= st.lineno:
-                                break
-                            if isinstance(s, ast.Assign) and len(s.targets) == 1 and isinstance(s.targets[0], ast.Subscript) \
-                                    and au.src(s.targets[0].value) == base and not _rmw(s) \
-                                    and base not in au.names(s.value) and _top_stmt(a, st) is not s:
-                                per_elem = per_elem or au.same(s.targets[0].slice, key)
-                pinned = (modname, q, base) in Z1_PINNED_NO_RESET
-                ok = fresh or cleared or per_elem or pinned
-                how = "fresh" if fresh else "cleared" if cleared else "reset per element" if per_elem else "pinned: accumulates onto the caller's attribute"
-                ctx.check(ok, "C07-Z1", site,
-                          f"{q}: `{au.src(st)}` accumulates onto `{base}` which is neither built in the function nor reset (`{base}.clear()`) before the loop",
-                          f"calling the function again with the same output attribute (or with one that already holds values) adds the new sum to "
-                          f"the old content: the result is (old + sum)/n instead of sum/n",
-                          note=f"{q}: accumulator `{base}` is {how}")
-    ctx.require_count("C07-Z1 read-modify-write accumulators", n, 6)
+                binds = [v for s in au.stmts(V.body) for nm, v in sym.split_assign(s) if nm == base]
+                other = [s for s in au.stmts(V.body) if sym.Bindings._assigns(s, base, deep=False) and not any(nm == base for nm, _ in sym.split_assign(s))]
+                origins = [_origin(v, params) for v in binds]
+                if base in params and not binds:
+                    origins = [("param", base)]
+                how = _reset_before(V, st, base, key)
+                n += 1
+                if how:
+                    ctx.ok("C07-Z1", site, f"{q}: accumulator `{base}` is {how}")
+                    continue
+                if other or not origins:
+                    ctx.undecided("C07-Z1", site, f"{q}: origin of the accumulator `{base}` not recognised", "")
+                    continue
+                if "fetched" in origins:
+                    ctx.fail("C07-Z1", site, f"{q}: `{au.src(st)}` accumulates onto `{base}` which may be an attribute fetched from the mesh (get_attribute) "
+                             f"and is not reset before the loop",
+                             "calling the function again on the same mesh adds the new sum to the old content of the stored attribute")
+                    continue
+                pars = [o[1] for o in origins if isinstance(o, tuple)]
+                if pars:
+                    pos = params.index(pars[0])
+                    if (modname, q, pos) in Z1_PINNED_NO_RESET:
+                        ctx.ok("C07-Z1", site, f"{q}: accumulates onto the caller's attribute (pinned behaviour)")
+                    elif q.startswith("_"):
+                        ctx.ok("C07-Z1", site, f"{q}: private helper accumulating onto its argument (checked where the argument is built)")
+                    else:
+                        ctx.fail("C07-Z1", site, f"{q}: `{au.src(st)}` accumulates onto the parameter `{pars[0]}` which is neither built in the function nor reset "
+                                 f"(`{pars[0]}.clear()`) before the loop",
+                                 "calling the function again with the same output attribute (or with one that already holds values) adds the new sum to "
+                                 "the old content: the result is (old + sum)/n instead of sum/n")
+                    continue
+                if "unknown" in origins:
+                    ctx.undecided("C07-Z1", site, f"{q}: the accumulator `{base}` is built by a call the rule does not know", "")
+                    continue
+                ctx.ok("C07-Z1", site, f"{q}: accumulator `{base}` is fresh")
+    floor(ctx, "C07-Z1", n, 1, "attributes.interpolate", "read-modify-write accumulator(s)")
+
+
+# ----------------------------------------------------------------------- C07-I1
+WHOLE_CONSUMERS = {"list", "tuple", "sum", "max", "min", "sorted", "set", "len", "mean", "array", "asarray", "fromiter", "amax", "amin", "average", "median", "std", "enumerate", "zip", "iter", "any", "all"}
+
+
+def _fetched_names(V):
+    """local names that may hold an attribute returned by get_attribute (storage unknown)"""
+    out = set()
+    for st in au.stmts(V.body):
+        for nm, v in sym.split_assign(st):
+            for x in ([v.body, v.orelse] if isinstance(v, ast.IfExp) else [v]):
+                if isinstance(x, ast.Call) and au.call_tail(x) == "get_attribute":
+                    out.add(nm)
+    return out
+
+
+def i1_attribute_iteration(ctx):
+    n = 0
+    for modname in ALL_ATTR:
+        for q, fn in top_funcs(ctx, modname):
+            V = H.fview(ctx, modname, fn)
+            names = _fetched_names(V)
+            if not names:
+                continue
+
+            def is_attr(e):
+                return (isinstance(e, ast.Name) and e.id in names) or (isinstance(e, ast.Call) and au.call_tail(e) == "get_attribute")
+            for node in au.walk(V):
+                used = None
+                if isinstance(node, (ast.For, ast.comprehension)) and is_attr(node.iter):
+                    used = (node.iter, "iterated")
+                elif isinstance(node, ast.Call) and au.call_tail(node) in WHOLE_CONSUMERS and node.args and is_attr(node.args[0]):
+                    used = (node.args[0], f"passed as a whole to {au.call_tail(node)}()")
+                if used is None:
+                    continue
+                n += 1
+                ctx.fail("C07-I1", ctx.site(modname, fn, node if not isinstance(node, ast.comprehension) else used[0]),
+                         f"{q}: the attribute `{au.src(used[0])}` fetched with get_attribute is {used[1]}",
+                         "a cached attribute may be sparse (dict backed): iterating it yields the ids that hold a non-default value, not the values, "
+                         "and its len() is the number of those entries - the quantity is no longer the one defined over all the elements")
+            n += 1
+            ctx.ok("C07-I1", ctx.site(modname, fn), f"{q}: fetched attribute(s) {sorted(names)} are read element by element")
+    if n == 0:
+        ctx.ok("C07-I1", ctx.site(GLOB, "<module>"), "no attribute fetched from a container in the attribute modules")
+
+
+# ----------------------------------------------------------------------- C07-T1
+VECTOR_PRIMS = {"cross", "normalized"}
+POINT_PRIMS = {"distance", "triangle_area", "quad_area", "angle_3pts", "cotan", "aspect_ratio", "circumcenter", "signed_angle_3pts"}
+
+
+def t1_translation(ctx):
+    from ..rules import c0708_geo as GEO
+    n = 0
+    for modname in ALL_ATTR:
+        m = ctx.repo.module(modname)
+        for q, fn in top_funcs(ctx, modname):
+            world = GEO.World(ctx.repo)
+            world.seen = []
+            V = H.fview(ctx, modname, fn, unroll=False)
+            top = GEO.Interp(world, m.name, V).run()
+            for interp, node, tail, args, recv in world.seen:
+                if interp is not top:
+                    continue
+
+                def weight(v):
+                    a = v.a if v is not None else None
+                    if a is not None and a[0] == "L":
+                        a = a[1].a
+                    if a is not None and a[0] == "P" and not a[2] and a[1].is_const():
+                        return a[1].const_value()
+                    return None
+                if tail in VECTOR_PRIMS or (tail == "norm" and (len(args) == 1 or recv is not None)):
+                    ws = [weight(v) for v in (args if args else [recv])] if not (tail == "norm" and not args) else [weight(recv)]
+                    if all(w is None for w in ws):
+                        continue
+                    n += 1
+                    bad = [w for w in ws if w is not None and w != 0]
+                    ctx.check(not bad, "C07-T1", ctx.site(modname, fn, node),
+                              f"{q}: `{tail}` receives a position (affine weight {bad[0] if bad else 0}) where a displacement between two positions is expected",
+                              "the cross product / norm / direction of a position depends on where the origin is: the quantity changes under a translation of the mesh",
+                              note=f"{q}: {tail}() of displacement vectors")
+                elif tail in POINT_PRIMS:
+                    ws = [weight(v) for v in args]
+                    known = [w for w in ws if w is not None]
+                    if len(known) < 2:
+                        continue
+                    n += 1
+                    ctx.check(len(set(known)) == 1, "C07-T1", ctx.site(modname, fn, node),
+                              f"{q}: `{tail}` receives arguments of affine weights {[str(w) for w in known]}: positions and displacement vectors are mixed",
+                              "distances, areas and angles are functions of positions; mixing a position with a displacement makes them depend on the origin",
+                              note=f"{q}: {tail}() of positions")
+    if n == 0:
+        ctx.undecided("C07-T1", ctx.site("attributes.attr_faces", "<module>"), "no call of a vector / position primitive with arguments of known affine weight", "")
+
+
+# ----------------------------------------------------------------------- C07-B1
+def _bool_eval(e, env, b, at):
+    """truth of a test under an assignment of its atoms (env: source text -> bool); raises KeyError on an unknown atom"""
+    if isinstance(e, ast.UnaryOp) and isinstance(e.op, ast.Not):
+        return not _bool_eval(e.operand, env, b, at)
+    if isinstance(e, ast.BoolOp):
+        vals = [_bool_eval(v, env, b, at) for v in e.values]
+        return all(vals) if isinstance(e.op, ast.And) else any(vals)
+    if isinstance(e, ast.Constant):
+        return bool(e.value)
+    if isinstance(e, ast.Name) and e.id not in env:
+        d = b.reaching(e.id, at)
+        if d is not None:
+            return _bool_eval(d, env, b, b._last_def_stmt)
+    if isinstance(e, ast.Call) and au.call_tail(e) == "is_vertex_on_border":
+        return env["border"]
+    return env[au.src(e)]
+
+
+def _about_border(t, b, at):
+    r = b.resolve(t, at=at)
+    return "zero_border" in au.names(r) or any(isinstance(c, ast.Call) and au.call_tail(c) == "is_vertex_on_border" for c in ast.walk(r))
+
+
+def b1_angle_defect_border(ctx):
+    mod = "attributes.attr_vertices"
+    fn = ctx.repo.func(mod, "angle_defects")
+    site = ctx.site(mod, fn)
+    V = H.fview(ctx, mod, fn)
+    b = sym.Bindings(V)
+    from ..sym import Poly as _P
+
+    def pipoly(e):
+        def atom(x):
+            c = au.chain(x)
+            if (c and c[-1] == "pi") or (isinstance(x, ast.Name) and x.id == "pi"):
+                return "pi"
+            return None
+        return sym.to_poly(e, atom_of=atom, opaque=True)
+    # the accumulator and its default
+    subs = [s for s in au.stmts(V.body) if au.increment(s) is not None and au.increment(s)[1] == -1 and isinstance((s.target if isinstance(s, ast.AugAssign) else s.targets[0]), ast.Subscript)]
+    if len(subs) != 1 or "zero_border" not in au.params(fn):
+        ctx.undecided("C07-B1", site, "angle_defects: subtraction of the corner angles from the per-vertex defect not recognised", "")
+        return
+    st = subs[0]
+    tgt = st.target if isinstance(st, ast.AugAssign) else st.targets[0]
+    acc = au.src(tgt.value)
+    # (1) default value 2*pi
+    defaults = set()
+    for c in au.calls(V):
+        if au.call_tail(c) in CTORS:
+            kw = {k.arg: k.value for k in c.keywords}
+            pos = {"create_attribute": 4, "ArrayAttribute": 3, "Attribute": 2}[au.call_tail(c)]
+            dv = c.args[pos] if len(c.args) > pos else kw.get("default_value")
+            if any(isinstance(a, ast.Name) and a.id == acc for s in au.stmts(V.body) for a in (au.assign_targets(s) if c in list(ast.walk(s)) else [])):
+                defaults.add(repr(pipoly(b.resolve(dv, at=c))) if dv is not None else "0")
+    if defaults:
+        ctx.check(defaults == {repr(_P.atom("pi").scale(2))}, "C07-B1", site,
+                  f"angle_defects: the defect of a vertex starts from {sorted(defaults)} instead of 2*pi",
+                  "the angle defect of an interior vertex is 2*pi minus the sum of the angles around it", note="interior vertices start from 2*pi")
+    else:
+        ctx.undecided("C07-B1", site, "angle_defects: default value of the defect attribute not recognised", "")
+    # (2) border start value
+    bst = [s for s in au.stmts(V.body) if isinstance(s, ast.Assign) and len(s.targets) == 1 and isinstance(s.targets[0], ast.Subscript)
+           and au.src(s.targets[0].value) == acc and any(isinstance(a, ast.For) and au.chain(a.iter) and au.chain(a.iter)[-1] == "boundary_vertices" for a in au.ancestors(s))]
+    if len(bst) != 1:
+        ctx.undecided("C07-B1", site, "angle_defects: start value of the border vertices (loop over mesh.boundary_vertices) not recognised", "")
+    else:
+        v = b.resolve(bst[0].value, at=bst[0])
+        got = {}
+        for zb in (True, False):
+            class T(ast.NodeTransformer):
+                def visit_IfExp(self, n):
+                    t, pol = au.strip_not(n.test)
+                    if isinstance(t, ast.Name) and t.id == "zero_border":
+                        return self.visit(n.body if (zb == pol) else n.orelse)
+                    return self.generic_visit(n)
+            got[zb] = pipoly(T().visit(sym.clone(v)))
+        if any(a.startswith("⟨") for p in got.values() for a in p.atoms()):
+            ctx.undecided("C07-B1", ctx.site(mod, fn, bst[0]), "angle_defects: start value of the border vertices is not read as a multiple of pi", "")
+        else:
+            ctx.check(got[True].is_zero() and got[False] == _P.atom("pi"), "C07-B1", ctx.site(mod, fn, bst[0]),
+                      f"angle_defects: border vertices start from {got[False]} (and {got[True]} when zero_border) instead of pi (and 0)",
+                      "the defect of a border vertex is pi minus the sum of its angles; zero_border ignores it", note="border vertices start from pi / 0")
+    # (3) the subtraction runs except for (border and zero_border)
+    facts = H.facts(st, toplevel=False)
+    try:
+        table = {}
+        for border in (True, False):
+            for zb in (True, False):
+                env = {"border": border, "zero_border": zb}
+                table[(border, zb)] = all(_bool_eval(t, env, b, st) == pol for t, pol in facts if _about_border(t, b, st))
+        want = {k: not (k[0] and k[1]) for k in table}
+        ctx.check(table == want, "C07-B1", ctx.site(mod, fn, st),
+                  "angle_defects: the corner angles are subtracted when (on border, zero_border) is in "
+                  f"{sorted(k for k, v in table.items() if v)}: expected everywhere except (True, True)",
+                  "zero_border only ignores the vertices of the border; every other vertex loses the angles of its corners",
+                  note="angles subtracted except at border vertices when zero_border")
+    except KeyError:
+        ctx.undecided("C07-B1", ctx.site(mod, fn, st), "angle_defects: the condition under which corner angles are subtracted is not expressed with is_vertex_on_border / zero_border", "")
+
+
+# ----------------------------------------------------------------------- C07-V1
+def v1_counts(ctx):
+    m = ctx.repo.module("attributes.attr_vertices")
+    fn = ctx.repo.func("attributes.attr_vertices", "degree")
+    site = ctx.site("attributes.attr_vertices", fn)
+    V = H.fview(ctx, "attributes.attr_vertices", fn)
+    F = he_seq.Forms(V, ctx.repo, m.name)
+    incs = [s for s in au.stmts(V.body) if au.increment(s) is not None and isinstance((s.target if isinstance(s, ast.AugAssign) else s.targets[0]), ast.Subscript)]
+    outer = lambda s: ([a for a in au.ancestors(s) if isinstance(a, ast.For)] or [None])[-1]
+    loops = {id(outer(s)) for s in incs}
+    lp = outer(incs[0]) if incs else None
+    L = he_seq.LoopCtx(F, lp.target, lp.iter, lp) if lp is not None else None
+    # `for edge in mesh.edges: for end in edge: deg[end] += 1`: one increment per end through an inner loop over the whole edge
+    if len(incs) == 1 and L is not None and L.seq is not None:
+        inner = [a for a in au.ancestors(incs[0]) if isinstance(a, ast.For) and a is not lp]
+        row0 = next((nm for nm, d in L.names.items() if d[0] == "at" and d[2] == 0), None)
+        if len(inner) == 1 and row0 is not None and isinstance(inner[0].target, ast.Name):
+            Li = he_seq.LoopCtx(F, inner[0].target, inner[0].iter, inner[0])
+            t0 = incs[0].target if isinstance(incs[0], ast.AugAssign) else incs[0].targets[0]
+            if Li.seq is not None and Li.seq.base == row0 and he_seq.full(Li.seq) and au.src(t0.slice) == inner[0].target.id \
+                    and (L.seq.base or "").endswith(".edges") and he_seq.full(L.seq) and not au.guards(incs[0], stop=lp) \
+                    and au.increment(incs[0])[1] == 1 and au.const(au.increment(incs[0])[2]) == 1:
+                ctx.ok("C07-V1", site, "degree: +1 at every end of every edge (inner loop over the edge)")
+                incs = None
+    if incs is None:
+        pass
+    elif not incs or len(loops) != 1 or L is None or L.seq is None or not (L.seq.base or "").endswith(".edges") or any(au.guards(s, stop=lp) for s in incs):
+        ctx.undecided("C07-V1", site, "degree: unconditional increments of the two ends of every edge inside one loop over mesh.edges not recognised", "")
+    else:
+        ends = next((r for r in L.rows.values() if None not in r), None)
+        row = next((nm for nm, d in L.names.items() if d[0] == "at" and d[2] == 0), None)
+        keys = []
+        for s in incs:
+            t = s.target if isinstance(s, ast.AugAssign) else s.targets[0]
+            k = he_norm.fold_literals(ast.Expr(value=sym.clone(F.b.resolve(t.slice, at=s, keep=tuple(ends or ()) + ((row,) if row else ()))))).value
+            keys.append((au.src(k), au.increment(s)[1], au.const(au.increment(s)[2])))
+        want = sorted(ends) if ends else ([f"{row}[0]", f"{row}[1]"] if row else None)
+        full = he_seq.full(L.seq)
+        if want is None or full is None:
+            ctx.undecided("C07-V1", site, "degree: the two ends of an edge not recognised", "")
+        else:
+            ok = sorted(k for k, sg, c in keys) == want and all(sg == 1 and c == 1 for k, sg, c in keys) and full
+            ctx.check(ok, "C07-V1", ctx.site("attributes.attr_vertices", fn, incs[0]),
+                      f"degree: one pass over the edges increments {[(k, sg * (c or 0)) for k, sg, c in keys]}: expected +1 at each of the two ends of every edge",
+                      "the degree of a vertex is the number of edges incident to it", note="degree: +1 at both ends of every edge")
+    # total_area
+    fn = ctx.repo.func(GLOB, "total_area")
+    site = ctx.site(GLOB, fn)
+    gm = ctx.repo.module(GLOB)
+    V = H.fview(ctx, GLOB, fn)
+    F = he_seq.Forms(V, ctx.repo, gm.name)
+    e = he_norm.return_expr(V)
+    dom = None
+    if e is not None and _sum_over(e) not in (None, False):
+        at = [s for s in au.stmts(V.body) if isinstance(s, ast.Return)][-1]
+        gen = e.args[0]
+        if isinstance(gen, (ast.GeneratorExp, ast.ListComp)):
+            dom = he_seq.LoopCtx(F, gen.generators[0].target, gen.generators[0].iter, at).seq
+    else:
+        accs = [s for s in au.stmts(V.body) if au.increment(s) is not None and isinstance((s.target if isinstance(s, ast.AugAssign) else s.targets[0]), ast.Name)]
+        lps = [next((a for a in au.ancestors(s) if isinstance(a, ast.For)), None) for s in accs]
+        if len(accs) == 1 and lps[0] is not None and not au.guards(accs[0], stop=lps[0]):
+            dom = he_seq.LoopCtx(F, lps[0].target, lps[0].iter, lps[0]).seq
+    if dom is None or dom.base is None or he_seq.full(dom) is None:
+        ctx.undecided("C07-V1", site, "total_area: sum of the face areas over all the faces not recognised", "")
+    else:
+        base = dom.base.split(".")[-1]
+        ctx.check(base in ("faces", "id_faces") and he_seq.full(dom), "C07-V1", site,
+                  f"total_area: the areas are summed over `{dom.base}`" + ("" if he_seq.full(dom) else " (partially)") + ", not over all the faces of the mesh",
+                  "the total area is the sum of the areas of all the faces", note="total_area sums over all faces")
+
+
+# ----------------------------------------------------------------------- C07-O1
+def _oriented_det(edges, n):
+    """determinant (in the affine frame of point 0) of two edge vectors given as (index of head, index of tail) among n points of a face"""
+    rows = []
+    for x, y in edges:
+        r = [0] * n
+        r[x] += 1
+        r[y] -= 1
+        rows.append(r[1:3])
+    return rows[0][0] * rows[1][1] - rows[0][1] * rows[1][0]
+
+
+def o1_normal_orientation(ctx):
+    mod = "attributes.attr_faces"
+    m = ctx.repo.module(mod)
+    fn = ctx.repo.func(mod, "face_normals")
+    site = ctx.site(mod, fn)
+    V = H.fview(ctx, mod, fn)
+    F = he_seq.Forms(V, ctx.repo, m.name)
+    b = F.b
+    stores = [st for st in au.stmts(V.body) if isinstance(st, ast.Assign) and len(st.targets) == 1 and isinstance(st.targets[0], ast.Subscript)
+              and any(isinstance(c, ast.Call) and au.call_tail(c) == "cross" for c in ast.walk(b.resolve(st.value, at=st)))]
+    if len(stores) != 1:
+        ctx.undecided("C07-O1", site, "face_normals: store of the normalised cross product of two edges of the face not recognised", "")
+        return
+    st = stores[0]
+    val = _specialise_defaults(b.resolve(st.value, at=st), V)
+    cr = [c for c in ast.walk(val) if isinstance(c, ast.Call) and au.call_tail(c) == "cross" and len(c.args) == 2]
+    loops = [a for a in au.ancestors(st) if isinstance(a, ast.For)]
+    fl = _face_loop(F, loops)
+    if len(cr) != 1 or fl is None:
+        ctx.undecided("C07-O1", site, "face_normals: cross product of two edge vectors inside the loop over the faces not recognised", "")
+        return
+    lp, LF, fis, row = fl
+    edges = []
+    for a in cr[0].args:
+        e = _strip(he_norm.fold_literals(ast.Expr(value=sym.clone(b.resolve(a, at=st, keep=tuple(LF.names))))).value)
+        if not (isinstance(e, ast.BinOp) and isinstance(e.op, ast.Sub)):
+            edges.append(None)
+            continue
+        ends = []
+        for side in (e.left, e.right):
+            d = LF.desc(_strip(side), st)
+            ends.append(d[2] if d[0] == "elt" else None)
+        edges.append(tuple(ends) if None not in ends else None)
+    if None in edges or any(j not in (0, 1, 2) for e in edges for j in e):
+        ctx.undecided("C07-O1", ctx.site(mod, fn, st), "face_normals: the edge vectors of the cross product could not be related to the first three vertices of the face", "")
+        return
+    det = _oriented_det(edges, 3)
+    norm_ok = any(isinstance(c, ast.Call) and au.call_tail(c) == "normalized" and any(cr[0] is x for x in ast.walk(c)) for c in ast.walk(val))
+    problems = []
+    if det == 0:
+        problems.append(f"the two edge vectors {edges} of the cross product are parallel")
+    elif det < 0:
+        problems.append(f"the cross product of the edge vectors {edges} points against the orientation given by the order of the vertices")
+    elif abs(det) != 1:
+        problems.append(f"the edge vectors {edges} are not two edges of the triangle of the first three vertices")
+    if not norm_ok:
+        problems.append("the cross product is not normalised")
+    ctx.check(not problems, "C07-O1", ctx.site(mod, fn, st), "face_normals: " + "; ".join(problems),
+              "the unit normal of a face is cross(B - A, C - A) / |..| for its vertices A, B, C in order (right-hand rule)", note="normal = normalised cross of positively oriented edges")
 
 
 # ----------------------------------------------------------------------- C07-P1
@@ -1364,18 +2434,19 @@ def p1_points(ctx):
         site = ctx.site(GEOM, fn)
         missing = [p for p in roles if p not in au.params(fn)]
         if missing:
-            ctx.fail("C07-P1", site, f"{name}: parameter(s) {missing} not found", "the roles (position / direction) of the parameters are frozen in the checker")
+            ctx.undecided("C07-P1", site, f"{name}: parameter(s) {missing} not found", "the roles (position / direction) of the parameters are frozen in the checker")
             continue
         world = GEO.World(ctx.repo)
         am = {k: GEO.Val(1, GEO.P(_P.const(w))) for k, w in roles.items()}
-        it = GEO.Interp(world, gm.name, fn, am).run()
+        V = he_norm.view(ctx.repo, gm.name, fn, unroll=False)
+        it = GEO.Interp(world, gm.name, V, am).run()
         if not it.returns:
-            ctx.fail("C07-P1", site, f"{name}: no returned value found", "")
+            ctx.undecided("C07-P1", site, f"{name}: no returned value found", "")
         for st, v in it.returns:
             decided, ok, text = GEO.point_verdict(v, it.frames)
             rsite = ctx.site(GEOM, fn, st)
             if not decided:
-                ctx.fail("C07-P1", rsite, f"{name}: the affine weight of the returned point `{au.src(st.value)}` cannot be derived ({text})", P1_WHAT)
+                ctx.undecided("C07-P1", rsite, f"{name}: the affine weight of the returned point cannot be derived ({text})", P1_WHAT)
             else:
                 ctx.check(ok, "C07-P1", rsite, f"{name}: the returned position `{au.src(st.value)}` is not an affine combination of the input positions: {text}",
                           P1_WHAT, note=f"{name}: returned value is a position ({text})")
@@ -1384,16 +2455,17 @@ def p1_points(ctx):
         m = ctx.repo.module(modname)
         site = ctx.site(modname, fn)
         world = GEO.World(ctx.repo)
-        it = GEO.Interp(world, m.name, fn).run()
-        rets = [s for s in au.stmts(fn.body) if isinstance(s, ast.Return) and s.value is not None]
-        out = rets[-1].value.id if rets and isinstance(rets[-1].value, ast.Name) else None
+        V = H.fview(ctx, modname, fn, unroll=False)
+        it = GEO.Interp(world, m.name, V).run()
+        rets = [s for s in au.stmts(V.body) if isinstance(s, ast.Return) and s.value is not None]
+        outs = {r.value.id for r in rets if isinstance(r.value, ast.Name)}
         cands = []
-        if out:
-            cands = [(t, val, v, sub) for sub, t, val, v in world.stores if sub is it and isinstance(t, ast.Subscript) and au.src(t.value) == out]
+        if outs:
+            cands = [(t, val, v, sub) for sub, t, val, v in world.stores if sub is it and isinstance(t, ast.Subscript) and au.src(t.value) in outs]
         if not cands:
-            cands = [(None, st.value, v, it) for st, v in it.returns]
+            cands = [(None, st.value, v, it) for st, v in it.returns if not isinstance(st.value, ast.Name)]
         if not cands:
-            ctx.fail("C07-P1", site, f"{q}: the position stored / returned by the function not found", "")
+            ctx.undecided("C07-P1", site, f"{q}: the position stored / returned by the function not recognised", "")
         for t, val, v, sub in cands:
             node = t if t is not None else val
             callee = world.resolve(m.name, val) if isinstance(val, ast.Call) else None
@@ -1402,7 +2474,7 @@ def p1_points(ctx):
                 continue
             decided, ok, text = GEO.point_verdict(v, sub.frames)
             if not decided:
-                ctx.fail("C07-P1", ctx.site(modname, fn, node), f"{q}: the affine weight of the position `{au.src(val)}` cannot be derived ({text})", P1_WHAT)
+                ctx.undecided("C07-P1", ctx.site(modname, fn, node), f"{q}: the affine weight of the stored position cannot be derived ({text})", P1_WHAT)
             else:
                 ctx.check(ok, "C07-P1", ctx.site(modname, fn, node), f"{q}: `{au.src(val)}` is not an affine combination of vertex positions: {text}",
                           P1_WHAT, note=f"{q}: position with {text}")
